@@ -1,7 +1,20 @@
 /-
   C01 (generated-code level), third part: the remaining region of `bid128_add` (`C01GenAddLoop.Remaining`), under the
   specification `RoundBlockSpec` of the inline block "round C2 by x1 digits with the reciprocal BID_TEN2MK128[x1 − 1]"
-  (proved separately in `C01GenAddRoundBlock.lean`).
+  (proved separately in `C01GenAddRoundBlock.lean`: `Dec.C01GenAddRoundBlock.roundBlockSpec`, which imports this file — so
+  the unconditional headline lives in a file importing both).
+
+  §0   the block as word-level functions `rbC2 rbHf rbQ rbGtHalf rbGtT rbMid`, `RoundBlockSpec` (frozen).
+  §1–4 (b) the sub-case "delta = P34, opposite signs, first coefficient a power of ten" (region of the former defect D1):
+       `add_d34pow_core`, `PowCond`, `add_d34pow (H : RoundBlockSpec)`: `bid128_add = addD`, datum and flags, all 5 modes.
+  §5–8 (a) the rounding loop `34 − q_L < delta < 34`, the part "one turn, one rounding" (`Loop1Cond`): `loop_first`, the
+       frame tactics (`kframe`, `klet`, `kgen_args`, `khead_cases`, `kname`), `scaleK_ok'`, `add_adjust`, `sub_adjust`,
+       `finish_add1`, `finish_sub1`, `loop1_code`, `add_loop1_core`, `add_loop1 (H : RoundBlockSpec)`.
+  §9   `LoopRegion`, `PowRegion`, `Loop1Region`; what is left: `LoopRestRounding` (same signs and the padded sum may reach
+       35 digits: second rounding with `BID_TEN2MK128[0]` and the double-rounding repair; opposite signs and the difference
+       may fall to `10^33` or below: `second_pass`); `add_rounding_partial (H) (HR : LoopRestRounding) : AddRounding`,
+       `bid128_add_spec_partial2`, `bid128_sub_spec_partial2`, `bid128_add_spec_closed`.
+  Findings: none (no deviation from `addD` in the regions proved; the witness of D1 is an example in §4).
 -/
 import DecProofs.Properties.C01GenAddLoop
 
@@ -89,5 +102,2314 @@ def RoundBlockSpec : Prop :=
         ((bh.toNat * 2^64 + bl.toNat) % 10^(ind+1) < 10^(ind+1) / 2 →
           rbGtT ind R (rbHf ind R mask) oh tr = decide (0 < (bh.toNat * 2^64 + bl.toNat) % 10^(ind+1))) ∧
         rbMid R (rbHf ind R mask) tr = decide ((bh.toNat * 2^64 + bl.toNat) % 10^(ind+1) = 10^(ind+1) / 2)
+
+open Dec.C01GenAdd.Sym Dec.C01GenAddLoop.Sym2
+open Dec.C13GenNoncomp (bmod32 ten2k64_get)
+set_option linter.unusedTactic false
+set_option linter.unreachableTactic false
+set_option linter.unusedSimpArgs false
+
+/-! ## 1. Helpers -/
+
+open Lean Meta Elab Tactic in
+/-- β-reduce the application at the head of the left-hand side (enter a join point) without touching its `have`s -/
+elab "head_beta" : tactic => withMainContext do
+  let g ← getMainGoal
+  let t := (← instantiateMVars (← g.getType)).consumeMData
+  let some (ty, lhs, rhs) := t.eq? | throwError "head_beta: not an equation"
+  let g' ← g.replaceTargetDefEq (← mkEq lhs.headBeta rhs)
+  replaceMainGoal [g']
+
+open Lean Meta Elab Tactic in
+/-- β-reduce the head of the left-hand side and substitute the `have`s in front of it (no unfolding of local definitions) -/
+elab "head_zeta" : tactic => withMainContext do
+  let g ← getMainGoal
+  let t := (← instantiateMVars (← g.getType)).consumeMData
+  let some (ty, lhs, rhs) := t.eq? | throwError "head_zeta: not an equation"
+  let rec go (e : Expr) (fuel : Nat) : Expr :=
+    match fuel with
+    | 0 => e
+    | fuel + 1 =>
+      match e with
+      | .letE _ _ v b _ => go (b.instantiate1 v) fuel
+      | .mdata _ e => go e fuel
+      | e => let e' := e.headBeta; if e' == e then e else go e' fuel
+  let g' ← g.replaceTargetDefEq (← mkEq (go lhs 1000) rhs)
+  replaceMainGoal [g']
+
+open Dec.C13GenNoncomp (bmod32 ten2k64_get)
+
+/-- the multiplication `C1 · 10^scale` of the power-of-ten sub-case of `delta = P34`, as the code selects it -/
+def powK {β : Type} (q1 sc : Int32) (ah al : UInt64) (K : U128 → Except String β) : Except String β :=
+  if decide (sc ≥ 20) = true then (do
+    let t ← tbl128 Dec.Gen.BID_TEN2K128 (UInt64.ofInt (toI (sc - 20)))
+    let C1 ← mul_128x64_to_128 al t
+    K C1)
+  else
+    (if decide (q1 ≤ 19) = true then (do
+      let t ← tbl64 Dec.Gen.BID_TEN2K64 (UInt64.ofInt (toI sc))
+      let C1 ← mul_64x64_to_128MACH al t
+      K C1)
+    else (do
+      let t ← tbl64 Dec.Gen.BID_TEN2K64 (UInt64.ofInt (toI sc))
+      let C1 ← mul_128x64_to_128 t ⟨al, ah⟩
+      K C1))
+
+theorem powK_ok {β : Type} (q1 sc : Int32) (ah al : UInt64) (C Q S : Nat) (hC : ah.toNat * 2^64 + al.toNat = C)
+    (hq : q1.toInt = Q) (hsc : sc.toInt = S) (hQ : Q = ndigits C) (hC0 : 0 < C) (hS1 : 1 ≤ S) (hfit : Q + S ≤ 35) :
+    ∃ P : U128, P.toNat' = C * 10 ^ S ∧ ∀ K : U128 → Except String β, powK q1 sc ah al K = K P := by
+  have hl := al.toNat_lt
+  have hQ1 : 1 ≤ Q := by rw [hQ]; exact ndigits_pos hC0
+  have h1 : C < 10 ^ Q := by rw [hQ]; exact lt_pow_ndigits C
+  have hlt : C * 10 ^ S < 10 ^ 35 := by
+    calc C * 10 ^ S < 10 ^ Q * 10 ^ S := Nat.mul_lt_mul_of_pos_right h1 (Nat.pow_pos (by decide))
+      _ = 10 ^ (Q + S) := (Nat.pow_add _ _ _).symm
+      _ ≤ 10 ^ 35 := Nat.pow_le_pow_right (by decide) hfit
+  have h20 : (20 : Int32).toInt = 20 := by decide
+  by_cases c0 : 20 ≤ S
+  · have hs20 : decide (sc ≥ 20) = true := by rw [i32_ge, hsc, h20]; exact decide_eq_true (by omega)
+    have hCs : C < 10^19 := lt_of_lt_of_le h1 (Nat.pow_le_pow_right (by decide) (by omega))
+    have hh0 : ah.toNat = 0 := by
+      have : (10:Nat)^19 < 2^64 := by decide
+      omega
+    have hlC : al.toNat = C := by omega
+    have hs' : (sc - 20).toInt = ((S - 20 : Nat) : Int) := by
+      rw [Int32.toInt_sub, hsc, h20, bmod32 _ (by omega) (by omega)]; omega
+    obtain ⟨v, hv, hv10⟩ := ten2k128_get19 (S - 20) (by omega)
+    obtain ⟨r, hr, hrv⟩ := C01GenArith.gen_mul_128x64_to_128_exact al v (by
+      rw [hv10, hlC, show S - 20 + 20 = S from by omega]
+      exact lt_trans hlt (by decide))
+    refine ⟨r, by rw [hrv, hv10, hlC, show S - 20 + 20 = S from by omega], fun K => ?_⟩
+    unfold powK
+    rw [if_pos hs20, idx_i32 (sc - 20) (S - 20) hs', hv, bind_ok, hr, bind_ok]
+  · have hs20 : ¬ decide (sc ≥ 20) = true := by rw [i32_ge, hsc, h20]; simpa using c0
+    obtain ⟨v, hv, hv10⟩ := ten2k64_get S (by omega)
+    by_cases c2 : Q ≤ 19
+    · have hq19 : decide (q1 ≤ 19) = true := by rw [i32_le_lit, hq]; exact decide_eq_true (by simpa using c2)
+      have hCs : C < 10^19 := lt_of_lt_of_le h1 (Nat.pow_le_pow_right (by decide) c2)
+      have hh0 : ah.toNat = 0 := by
+        have : (10:Nat)^19 < 2^64 := by decide
+        omega
+      have hlC : al.toNat = C := by omega
+      obtain ⟨r, hr, hrv⟩ := C01GenArith.gen_mul_64x64_to_128MACH al v
+      refine ⟨r, by rw [hrv, hv10, hlC], fun K => ?_⟩
+      unfold powK
+      rw [if_neg hs20, if_pos hq19, idx_i32 sc S hsc, hv, bind_ok, hr, bind_ok]
+    · have hq19 : ¬ decide (q1 ≤ 19) = true := by rw [i32_le_lit, hq]; simpa using c2
+      obtain ⟨r, hr, hrv⟩ := C01GenArith.gen_mul_128x64_to_128_exact v ⟨al, ah⟩ (by
+        rw [hv10]
+        show 10^S * (al.toNat + 2^64 * ah.toNat) < 2^128
+        rw [show al.toNat + 2^64 * ah.toNat = C from by omega, Nat.mul_comm]
+        exact lt_trans hlt (by decide))
+      refine ⟨r, ?_, fun K => ?_⟩
+      · rw [hrv, hv10]
+        show 10^S * (al.toNat + 2^64 * ah.toNat) = _
+        rw [show al.toNat + 2^64 * ah.toNat = C from by omega, Nat.mul_comm]
+      · unfold powK
+        rw [if_neg hs20, if_neg hq19, idx_i32 sc S hsc, hv, bind_ok, hr, bind_ok]
+theorem mid_glue (x a b c : Bool) :
+    (if x = true then (if a = true then true else if b = true then c else false) else false) = (x && (a || (b && c))) := by
+  cases x <;> cases a <;> cases b <;> rfl
+theorem or_glue (a b c : Bool) : (if a = true then true else if b = true then c else false) = (a || (b && c)) := by
+  cases a <;> cases b <;> rfl
+theorem g2_glue (a b c d e : Bool) :
+    (if (if a = true then true else if b = true then c else false) = true then true else (if b = true then d else false) && e)
+      = ((a || (b && c)) || ((b && d) && e)) := by
+  cases a <;> cases b <;> cases c <;> rfl
+theorem t2_glue (x y b c : Bool) :
+    (if (if x = true then true else y) = true then true else if b = true then c else false) = ((x || y) || (b && c)) := by
+  cases x <;> cases y <;> cases b <;> rfl
+theorem or1_glue (a y : Bool) : (if a = true then true else y) = (a || y) := by
+  cases a <;> rfl
+theorem pf_glue (f : UInt32) (rv : Nat) :
+    (if decide (0 < rv) = true then f ||| c_StatusFlags_BID_INEXACT_EXCEPTION else f)
+      = if rv = 0 then f else f ||| c_StatusFlags_BID_INEXACT_EXCEPTION := by
+  by_cases r0 : rv = 0
+  · rw [if_pos r0, if_neg (by simp [r0])]
+  · rw [if_neg r0, if_pos (by simpa using Nat.pos_of_ne_zero r0)]
+theorem gtm_glue (rv h : Nat) (hlt : rv < h) :
+    (if decide (0 < rv) = true then true else false) = decide (0 < rv ∧ rv < h) := by
+  by_cases r0 : 0 < rv
+  · rw [if_pos (decide_eq_true r0)]; exact (decide_eq_true ⟨r0, hlt⟩).symm
+  · rw [if_neg (by simpa using r0)]; exact (decide_eq_false (fun hh => r0 hh.1)).symm
+theorem even34 : (10:Nat)^34 = 2 * (5 * 10^33) := by decide
+
+theorem words_of_toNat' (P : U128) (n : Nat) (h : P.toNat' = n) : P.w1.toNat * 2^64 + P.w0.toNat = n := by
+  rw [← h]; show _ = P.w0.toNat + 2^64 * P.w1.toNat; omega
+
+theorem pow_pad (QA : Nat) (h1 : 1 ≤ QA) (h : QA ≤ 34) : 10 ^ (QA - 1) * 10 ^ (35 - QA) = 10 ^ 34 := by
+  rw [← Nat.pow_add]; congr 1; omega
+theorem exp_plus (eb : UInt64) (x : Int32) (B S : Nat) (hb : eb.toNat = B * 2^49) (hs : x.toInt = S) (hBS : B + S < 2^14) :
+    (eb + (UInt64.ofInt (toI x)) <<< 49).toNat = (B + S) * 2^49 := by
+  have e : ((UInt64.ofInt (toI x)) <<< 49).toNat = S * 2^49 := by
+    rw [idx_i32 x S hs, shl49, UInt64.toNat_ofNat', Nat.mod_eq_of_lt (by omega)]
+    omega
+  rw [UInt64.toNat_add, e, hb]
+  omega
+
+/-- assembling the finite result of the rounding branches -/
+theorem asm_ok (sa ye hi lo : UInt64) (pf : UInt32) (sA : Bool) (M E : Nat)
+    (hsa : sa.toNat = if sA then 2^63 else 0) (hye : ye.toNat = E * 2^49) (hE : E < 2^14)
+    (hM : hi.toNat * 2^64 + lo.toNat = M) (hM34 : M < 10^34) :
+    (Except.ok (⟨lo, sa ||| ye ||| hi⟩, pf) : Except String (U128 × UInt32))
+      = .ok (ofBits (encode (.fin sA M ((E : Int) - 6176))), pf) := by
+  rw [or3, encode_at]
+  exact congrArg Except.ok (Prod.ext (assemble' lo hi sa ye sA M E hM (lt113 hM34) hsa hye hE) rfl)
+
+/-! ## 2. `10^34·10^k − C2`: the model and the code's indicators -/
+
+/-- the indicators of "10^34 minus the second coefficient rounded to `k` digits less" and what the mode correction makes
+of them: `C2 = a·D + r`, `D = 2h`; the block delivers `a` (if `r < h`) or `a + 1`, steps back on an odd tie -/
+theorem pow_adjust (m : RoundingMode) (sA : Bool) (a r h : Nat) (ha1 : 1 ≤ a) (ha9 : a ≤ 9) (hr : r < 2 * h)
+    (lte gte ltm gtm : Bool) (Rf : Nat)
+    (hlte : lte = decide (r = h ∧ (a + 1) % 2 = 1)) (hgte : gte = decide (r = h ∧ (a + 1) % 2 = 0))
+    (hltm : ltm = decide (h < r)) (hgtm : gtm = decide (0 < r ∧ r < h))
+    (hRf : Rf = if r < h then a else if r = h ∧ (a + 1) % 2 = 1 then a else a + 1)
+    (T : Nat) (hT : T = if r = 0 then 10^34 - a else roundInt (md m) sA (10^34 - a - 1) (2 * h - r) (2 * h)) :
+    (m = .NearestEven → 10^34 - Rf = T) ∧
+    (m ≠ .NearestEven → upB (!sA) sA m ltm gte = true → 10^34 - Rf + 1 = T) ∧
+    (m ≠ .NearestEven → upB (!sA) sA m ltm gte = false → dnB (!sA) sA m lte gtm = true → 10^34 - Rf - 1 = T) ∧
+    (m ≠ .NearestEven → upB (!sA) sA m ltm gte = false → dnB (!sA) sA m lte gtm = false → 10^34 - Rf = T) := by
+  subst hlte hgte hltm hgtm hRf hT
+  have hodd : (10^34 - a - 1) % 2 = (a + 1) % 2 := by
+    have : (10:Nat)^34 = 2 * (5 * 10^33) := by decide
+    omega
+  have h34 : (10:Nat)^34 ≥ 100 := by decide
+  generalize (10:Nat)^34 = B at *
+  unfold roundInt roundUp upB dnB
+  rcases Nat.lt_trichotomy r h with c | c | c
+  · by_cases r0 : r = 0
+    · subst r0
+      cases m <;> cases sA <;> simp [md, c] <;> omega
+    · cases m <;> cases sA <;> simp [md, c, r0, hodd] <;> (try split_ifs) <;> omega
+  · subst c
+    have r0 : r ≠ 0 := by omega
+    have e : 2 * r - r = r := by omega
+    rcases Nat.mod_two_eq_zero_or_one (a + 1) with p | p <;>
+    cases m <;> cases sA <;> simp [md, r0, hodd, p, e] <;> (try split_ifs) <;> omega
+  · have r0 : r ≠ 0 := by omega
+    have nc : ¬ r < h := by omega
+    have nc2 : ¬ r = h := by omega
+    cases m <;> cases sA <;> simp [md, c, r0, hodd, nc, nc2] <;> (try split_ifs) <;> omega
+
+theorem finish_pow (mode : Mode) (sA : Bool) (k a r : Nat) (eB : Int) (ha1 : 1 ≤ a) (ha9 : a ≤ 9) (hr : r < 10 ^ k)
+    (he : -6176 ≤ eB) (hx : eB + k ≤ 6111) :
+    finish mode sA (10^34 * 10^k - (a * 10^k + r)) 1 eB eB =
+      if r = 0 then (.fin sA (10^34 - a) (eB + k), 0)
+      else (.fin sA (roundInt mode sA (10^34 - a - 1) (10^k - r) (10^k)) (eB + k), fInexact) := by
+  have hp : 0 < 10 ^ k := Nat.pow_pos (by decide)
+  have h34 : (10:Nat)^34 = 10 * 10^33 := by decide
+  by_cases r0 : r = 0
+  · subst r0
+    rw [if_pos rfl, Nat.add_zero, ← Nat.sub_mul]
+    refine finish_exact mode sA _ eB (Nat.mul_pos (by omega) hp) (10^34 - a) (eB + k) (by omega) ?_ ?_ ?_
+    · rw [show (eB + k - eB).toNat = k from by omega]
+    · refine ⟨?_, ?_, ?_⟩
+      · show 10^34 - a < 10^34; omega
+      · unfold eMin; omega
+      · unfold eMax; omega
+    · right; show 10^34 ≤ (10^34 - a) * 10; omega
+  · rw [if_neg r0]
+    have hk : 1 ≤ k := by
+      rcases Nat.eq_zero_or_pos k with h | h
+      · subst h; simp at hr; exact absurd hr r0
+      · exact h
+    have e : 10^34 * 10^k - (a * 10^k + r) = (10^34 - a) * 10^k - r := by rw [Nat.sub_mul]; omega
+    obtain ⟨hd, hm⟩ := divmod_sub (10^34 - a) k r (by omega) (by omega) hr
+    have hM : (10^34 - a) * 10^k = (10^34 - a - 1) * 10^k + 10^k := by
+      rw [← Nat.succ_mul]; congr 1; omega
+    have hN1 : 10 ^ (33 + k) ≤ (10^34 - a) * 10^k - r := by
+      rw [Nat.pow_add, hM]
+      have : 10^33 * 10^k ≤ (10^34 - a - 1) * 10^k := Nat.mul_le_mul_right _ (by omega)
+      omega
+    have hN2 : (10^34 - a) * 10^k - r < 10 ^ (34 + k) := by
+      rw [Nat.pow_add]
+      have : (10^34 - a) * 10^k ≤ 10^34 * 10^k := Nat.mul_le_mul_right _ (by omega)
+      omega
+    rw [e, finish_long mode sA _ eB k hN1 hN2 hk he (by omega) (by rw [hm]; omega), hd, hm]
+    have hne : ¬ roundInt mode sA (10^34 - a - 1) (10^k - r) (10^k) = P34 := by
+      rcases ri_cases mode sA (10^34 - a - 1) (10^k - r) (10^k) with h | h <;> rw [h] <;> unfold P34 <;> omega
+    rw [if_neg hne, if_neg (by unfold eMax; omega)]
+
+theorem pow10_even (k : Nat) (hk : 1 ≤ k) : 2 * (10 ^ k / 2) = 10 ^ k := by
+  obtain ⟨j, rfl⟩ : ∃ j, k = j + 1 := ⟨k - 1, by omega⟩
+  rw [Nat.pow_succ]; omega
+
+/-- the model in the power-of-ten sub-case of `delta = P34`: `10^(QA−1)·10^gap − cB = 10^34·10^(QB−1) − cB` rounded to 34 digits -/
+theorem addFin_pow (mode : Mode) (sA sB : Bool) (cA cB : Nat) (eA eB : Int) (QA QB : Nat)
+    (hQB : ndigits cB = QB) (hcB0 : 0 < cB) (hQA1 : 1 ≤ QA) (hQA34 : QA ≤ 34) (hpow : cA = 10 ^ (QA - 1))
+    (hsne : ¬ sA = sB) (h34d : (QA : Int) + eA - QB - eB = 34) (hblo : -6176 ≤ eB) (hahi : eA ≤ 6111) :
+    addFin mode sA cA eA sB cB eB (if eA ≤ eB then eA else eB) =
+      (if cB % 10 ^ (QB - 1) = 0 then (.fin sA (10^34 - cB / 10 ^ (QB - 1)) (eB + ((QB - 1 : Nat) : Int)), 0)
+       else (.fin sA (roundInt mode sA (10^34 - cB / 10 ^ (QB - 1) - 1) (10 ^ (QB - 1) - cB % 10 ^ (QB - 1)) (10 ^ (QB - 1)))
+              (eB + ((QB - 1 : Nat) : Int)), fInexact)) ∧
+    1 ≤ cB / 10 ^ (QB - 1) ∧ cB / 10 ^ (QB - 1) ≤ 9 := by
+  have hQB1 : 1 ≤ QB := by rw [← hQB]; exact ndigits_pos hcB0
+  have hp : 0 < 10 ^ (QB - 1) := Nat.pow_pos (by decide)
+  have hlo : 10 ^ (QB - 1) ≤ cB := by rw [← hQB]; exact (ndigits_spec hcB0).1
+  have hhi : cB < 10 ^ (QB - 1) * 10 := by
+    have := lt_pow_ndigits cB
+    rw [hQB, show QB = QB - 1 + 1 from by omega, Nat.pow_succ] at this
+    exact this
+  have ha1 : 1 ≤ cB / 10 ^ (QB - 1) := (Nat.one_le_div_iff hp).2 hlo
+  have ha9 : cB / 10 ^ (QB - 1) ≤ 9 := by
+    have : cB / 10 ^ (QB - 1) < 10 := (Nat.div_lt_iff_lt_mul hp).2 (by rw [Nat.mul_comm]; exact hhi)
+    omega
+  refine ⟨?_, ha1, ha9⟩
+  have hle : eB ≤ eA := by omega
+  have hA : cA * 10 ^ (eA - eB).toNat = 10^34 * 10 ^ (QB - 1) := by
+    rw [hpow, ← Nat.pow_add, ← Nat.pow_add]; congr 1; omega
+  have hgt : cB < cA * 10 ^ (eA - eB).toNat := by
+    rw [hA]
+    have : 10 ^ (QB - 1) * 10 ≤ 10^34 * 10 ^ (QB - 1) := by
+      rw [Nat.mul_comm]; exact Nat.mul_le_mul_right _ (by decide)
+    omega
+  rw [addFin_big mode sA cA eA sB cB eB hle hgt, if_neg hsne, hA]
+  have hdm := Nat.div_add_mod cB (10 ^ (QB - 1))
+  have e : cB = cB / 10 ^ (QB - 1) * 10 ^ (QB - 1) + cB % 10 ^ (QB - 1) := by rw [Nat.mul_comm]; exact hdm.symm
+  conv => lhs; rw [e]
+  exact finish_pow mode sA (QB - 1) _ _ eB ha1 ha9 (Nat.mod_lt _ hp) hblo (by omega)
+
+theorem tabs_all : (List.range 33).all (fun j =>
+    match tbl64 Dec.Gen.BID_MASKHIGH128 (UInt64.ofNat j), tblI32 Dec.Gen.BID_SHIFTRIGHT128 (UInt64.ofNat j),
+        tbl64 Dec.Gen.BID_ONEHALF128 (UInt64.ofNat j) with
+    | .ok _, .ok _, .ok _ => true
+    | _, _, _ => false) = true := by
+  decide +kernel
+
+/-- the three auxiliary tables of the rounding block can be read at every index the block uses -/
+theorem tabs_get (j : Nat) (hj : j ≤ 32) :
+    ∃ mask sh oh, tbl64 Dec.Gen.BID_MASKHIGH128 (UInt64.ofNat j) = .ok mask ∧
+      tblI32 Dec.Gen.BID_SHIFTRIGHT128 (UInt64.ofNat j) = .ok sh ∧ tbl64 Dec.Gen.BID_ONEHALF128 (UInt64.ofNat j) = .ok oh := by
+  have h := List.all_eq_true.1 tabs_all j (List.mem_range.2 (by omega))
+  cases h1 : tbl64 Dec.Gen.BID_MASKHIGH128 (UInt64.ofNat j) with
+  | error e => rw [h1] at h; exact absurd h (by simp)
+  | ok v1 =>
+    cases h2 : tblI32 Dec.Gen.BID_SHIFTRIGHT128 (UInt64.ofNat j) with
+    | error e => rw [h1, h2] at h; exact absurd h (by simp)
+    | ok v2 =>
+      cases h3 : tbl64 Dec.Gen.BID_ONEHALF128 (UInt64.ofNat j) with
+      | error e => rw [h1, h2, h3] at h; exact absurd h (by simp)
+      | ok v3 => exact ⟨v1, v2, v3, rfl, rfl, rfl⟩
+
+/-! ## 3. The sub-case "opposite signs, first coefficient a power of ten" of the branch `delta = P34` (former defect D1)
+
+The real routine is stepped: the first test of the branch fails, `C1 := C1·10^(35 − q1) = 10^34`, then (for `q2 ≥ 2`) the
+rounding block on `C2` with `ind = q2 − 2` (`RoundBlockSpec`), the step back on an odd tie, `C1 − R`, the mode correction. -/
+
+/-- operands in the code's order (`a` has the larger exponent): `delta = 34`, opposite signs, `cA = 10^(QA−1)` -/
+theorem add_d34pow_core (H : RoundBlockSpec) (x y a b : U128) (m : RoundingMode) (f : UInt32) (hab : Ordered x y a b)
+    {sA sB : Bool} {cA cB : Nat} {eA eB : Int}
+    (ha : decode (bitsOf a) = .fin sA cA eA) (hb : decode (bitsOf b) = .fin sB cB eB) (hcA : cA ≠ 0) (hcB : cB ≠ 0)
+    (h34d : (ndigits cA : Int) + eA - ndigits cB - eB = 34)
+    (hsne : ¬ sA = sB) (hpow : cA = 10 ^ (ndigits cA - 1)) :
+    bid128_add x y m f =
+      .ok (ofBits (encode (addFin (md m) sA cA eA sB cB eB (if eA ≤ eB then eA else eB)).1),
+           f ||| UInt32.ofNat (addFin (md m) sA cA eA sB cB eB (if eA ≤ eB then eA else eB)).2) := by
+  obtain ⟨ha1, hac, haP, hae, halo, hahi, has, -⟩ := fin_view a ha
+  obtain ⟨hb1, hbc, hbP, hbe, hblo, hbhi, hbs, -⟩ := fin_view b hb
+  have hcA0 : 0 < cA := Nat.pos_of_ne_zero hcA
+  have hcB0 : 0 < cB := Nat.pos_of_ne_zero hcB
+  have ha0 := nonzero_words hac hcA
+  have hb0 := nonzero_words hbc hcB
+  have hEle : (eB + 6176).toNat ≤ (eA + 6176).toNat := by
+    have hle : uE b ≤ uE a := by
+      rcases hab with ⟨rfl, rfl, hc⟩ | ⟨rfl, rfl, hc⟩
+      · exact UInt64.not_lt.1 (by simpa using hc)
+      · exact UInt64.le_of_lt (by simpa using hc)
+    rw [UInt64.le_iff_toNat_le, hae, hbe] at hle
+    omega
+  have hle : eB ≤ eA := by omega
+  have hsp : ¬ ((x.w1 &&& c_MASK_SPECIAL == c_MASK_SPECIAL) || (y.w1 &&& c_MASK_SPECIAL == c_MASK_SPECIAL)) = true := by
+    rcases hab with ⟨rfl, rfl, -⟩ | ⟨rfl, rfl, -⟩
+    · exact not_special2 ha1 hb1
+    · exact not_special2 hb1 ha1
+  have hx0 : ¬ (uH x == 0 && uL x == 0) = true := by
+    rcases hab with ⟨rfl, rfl, -⟩ | ⟨rfl, rfl, -⟩
+    · exact ha0
+    · exact hb0
+  have hy0 : ¬ (uH y == 0 && uL y == 0) = true := by
+    rcases hab with ⟨rfl, rfl, -⟩ | ⟨rfl, rfl, -⟩
+    · exact hb0
+    · exact ha0
+  obtain ⟨D, D1, THI, TLO, hTa, hqa⟩ := digits_row (uH a) (uL a) (by rw [hac]; exact hcA0) (hi_lt hac haP)
+  obtain ⟨D', D1', THI', TLO', hTb, hqb⟩ := digits_row (uH b) (uL b) (by rw [hbc]; exact hcB0) (hi_lt hbc hbP)
+  rw [hac] at hqa
+  rw [hbc] at hqb
+  have hQA1 := ndigits_pos hcA0
+  have hQB1 := ndigits_pos hcB0
+  have hQA : ndigits cA ≤ 34 := (ndigits_le_iff hcA0).2 (by simpa [P34] using haP)
+  have hQB : ndigits cB ≤ 34 := (ndigits_le_iff hcB0).2 (by simpa [P34] using hbP)
+  have hEA : (eA + 6176).toNat < 2^14 := by omega
+  have hEB : (eB + 6176).toNat < 2^14 := by omega
+  have hdl := delta_toInt _ _ (uE a) (uE b) _ _ _ _ hqa hqb hQA hQB hae hbe hEA hEB
+  have h34 : c_P34.toInt = 34 := by decide
+  have hd1 : decide (deltaOf (qOf D D1 THI TLO (uH a) (uL a)) (qOf D' D1' THI' TLO' (uH b) (uL b)) (uE a) (uE b) ≥ c_P34) = true := by
+    rw [i32_ge, hdl, h34]; exact decide_eq_true (by omega)
+  have hd2 : ¬ decide (deltaOf (qOf D D1 THI TLO (uH a) (uL a)) (qOf D' D1' THI' TLO' (uH b) (uL b)) (uE a) (uE b) ≥ c_P34 + 1) = true := by
+    rw [i32_ge, hdl, show (c_P34 + 1).toInt = 35 from by decide]; simp only [decide_eq_true_eq]; omega
+  have hsig : (a.w1 &&& c_MASK_SIGN == b.w1 &&& c_MASK_SIGN) = (sA == sB) := (sign_eq_bools _ _ sA sB has hbs).1
+  generalize hQAd : ndigits cA = QA at *
+  generalize hQBd : ndigits cB = QB at *
+  generalize hEAd : (eA + 6176).toNat = EA at *
+  generalize hEBd : (eB + 6176).toNat = EB at *
+  obtain ⟨hmodel, hav1, hav9⟩ := addFin_pow (md m) sA sB cA cB eA eB QA QB hQBd hcB0 hQA1 hQA hpow hsne h34d hblo hahi
+  have hdm := Nat.div_add_mod cB (10 ^ (QB - 1))
+  have hrlt := Nat.mod_lt cB (show 10 ^ (QB - 1) > 0 from Nat.pow_pos (by decide))
+  rw [hmodel]; clear hmodel
+  generalize hav : cB / 10 ^ (QB - 1) = av at *
+  generalize hrv : cB % 10 ^ (QB - 1) = rv at *
+  obtain ⟨T, hT⟩ : ∃ T, T = if rv = 0 then 10^34 - av
+      else roundInt (md m) sA (10^34 - av - 1) (10 ^ (QB - 1) - rv) (10 ^ (QB - 1)) := ⟨_, rfl⟩
+  obtain ⟨pf, hpf⟩ : ∃ pf, pf = if rv = 0 then f else f ||| c_StatusFlags_BID_INEXACT_EXCEPTION := ⟨_, rfl⟩
+  have hT1 : 10^33 ≤ T ∧ T < 10^34 := by
+    have h34 : (10:Nat)^34 = 10 * 10^33 := by decide
+    rw [hT]
+    split
+    · omega
+    · rcases ri_cases (md m) sA (10^34 - av - 1) (10 ^ (QB - 1) - rv) (10 ^ (QB - 1)) with h | h <;> rw [h] <;> omega
+  suffices hS : bid128_add x y m f = .ok (ofBits (encode (.fin sA T (((EB + (QB - 1) : Nat) : Int) - 6176))), pf) by
+    have hE : ((EB + (QB - 1) : Nat) : Int) - 6176 = eB + ((QB - 1 : Nat) : Int) := by omega
+    rw [hS, hE, hT, hpf]
+    by_cases r0 : rv = 0
+    · rw [if_pos r0, if_pos r0, if_pos r0, or_zero32]
+    · rw [if_neg r0, if_neg r0, if_neg r0]; rfl
+  add_front
+  take_pos
+  · rw [hq1, hq2, hea, heb]; exact hd1
+  take_neg
+  · rw [hq1, hq2, hea, heb]; exact hd2
+  rw [← hq1] at hqa
+  rw [← hq2] at hqb
+  rw [← hal, ← hah] at hac
+  rw [← hbl, ← hbh] at hbc
+  rw [← hsa] at has
+  rw [← hsb] at hbs
+  rw [← hsa, ← hsb] at hsig
+  rw [← hea] at hae
+  rw [← heb] at hbe
+  clear hd1 hd2 hTa hTb hdl hsp hx0 hy0 ha0 hb0 ha1 hb1 ha hb hab
+  clear hq1 hq2 hal hah hbl hbh hsa hsb hea heb
+  have hl := al.toNat_lt
+  have htt : true = true := rfl
+  have hft : ¬ false = true := Bool.false_ne_true
+  have hs' : ¬ (sa == sb) = true := by rw [hsig]; simpa using hsne
+  head_step
+  -- the first test is false: the signs differ and the first coefficient is `10^(QA−1)`
+  have hq1i : (q1 - 1).toInt = ((QA - 1 : Nat) : Int) := by
+    rw [Int32.toInt_sub, hqa, show (1 : Int32).toInt = 1 from by decide, bmod32 _ (by omega) (by omega)]; omega
+  refine Eq.trans (bind_ok_step (v := false) ?_ _) ?_
+  · by_cases h20 : QA ≤ 20
+    · have hq20 : decide (q1 ≤ 20) = true := by rw [i32_le_lit, hqa]; exact decide_eq_true (by simpa using h20)
+      obtain ⟨v, hv, hv10⟩ := ten2k64_get (QA - 1) (by omega)
+      rw [← idx_i32 (q1 - 1) (QA - 1) hq1i] at hv
+      have hlt : cA < 2^64 := by
+        rw [hpow]; exact lt_of_le_of_lt (Nat.pow_le_pow_right (by decide) (show QA - 1 ≤ 19 by omega)) (by decide)
+      have hh0 : ¬ (ah != 0) = true := by
+        have : ah.toNat = 0 := by omega
+        have : ah = 0 := by rw [← UInt64.toNat_inj]; exact this
+        rw [this]; decide
+      sym_exec
+      refine congrArg Except.ok ?_
+      show (al != v) = false
+      have : al = v := by rw [← UInt64.toNat_inj, hv10]; omega
+      rw [this]; simp
+    · have hq20 : ¬ decide (q1 ≤ 20) = true := by rw [i32_le_lit, hqa]; simpa using h20
+      sym_exec
+      rfl
+  head_step
+  refine Eq.trans (bind_ok_step (v := false) ?_ _) ?_
+  · by_cases h20 : QA ≤ 20
+    · have hq21 : ¬ decide (q1 ≥ 21) = true := by
+        rw [i32_ge, hqa, show (21 : Int32).toInt = 21 from by decide]; simp only [decide_eq_true_eq]; omega
+      sym_exec
+      rfl
+    · have hq21 : decide (q1 ≥ 21) = true := by
+        rw [i32_ge, hqa, show (21 : Int32).toInt = 21 from by decide]; exact decide_eq_true (by omega)
+      obtain ⟨t, ht, ht10⟩ := ten2k128_get19 (QA - 21) (by omega)
+      have hidx : (q1 - 21).toInt = ((QA - 21 : Nat) : Int) := by
+        rw [Int32.toInt_sub, hqa, show (21 : Int32).toInt = 21 from by decide, bmod32 _ (by omega) (by omega)]; omega
+      rw [← idx_i32 (q1 - 21) (QA - 21) hidx] at ht
+      have hval : t.w1.toNat * 2^64 + t.w0.toNat = 10 ^ (QA - 1) := by
+        rw [show QA - 1 = QA - 21 + 20 from by omega]; exact words_swap t _ ht10
+      have h0 := t.w0.toNat_lt
+      have hah : ah = t.w1 := by rw [← UInt64.toNat_inj]; omega
+      have hal' : al = t.w0 := by rw [← UInt64.toNat_inj]; omega
+      have hh : ¬ (ah != t.w1) = true := by rw [hah]; simp
+      sym_exec
+      refine congrArg Except.ok ?_
+      show (al != t.w0) = false
+      rw [hal']; simp
+  head_step
+  take_neg
+  · exact hft
+  extract_lets -underBinder +onlyGivenNames x1 scale J
+  have hx1 : x1.toInt = ((QB - 1 : Nat) : Int) := by
+    show (q2 - 1).toInt = _
+    rw [Int32.toInt_sub, hqb, show (1 : Int32).toInt = 1 from by decide, bmod32 _ (by omega) (by omega)]; omega
+  have hscale : scale.toInt = ((35 - QA : Nat) : Int) := by
+    show (c_P34 - q1 + 1).toInt = _
+    rw [Int32.toInt_add, Int32.toInt_sub, hqa, h34, show (1 : Int32).toInt = 1 from by decide,
+      bmod32 (34 - (QA : Int)) (by omega) (by omega), bmod32 _ (by omega) (by omega)]; omega
+  refine Eq.trans (show _ = powK q1 scale ah al (fun C1 => J () C1) from by unfold powK; rfl) ?_
+  obtain ⟨P, hP, hK⟩ := powK_ok (β := U128 × UInt32) q1 scale ah al cA QA (35 - QA) hac hqa hscale hQAd.symm hcA0 (by omega) (by omega)
+  rw [hK]
+  have hP34 : P.w1.toNat * 2^64 + P.w0.toNat = 10^34 :=
+    words_of_toNat' P _ (by rw [hP, hpow]; exact pow_pad QA hQA1 hQA)
+  clear hK hP
+  show J () P = _
+  unfold J
+  head_beta
+  extract_lets -underBinder +onlyGivenNames tmp64 ind JT
+  obtain ⟨hz, hnz⟩ := sign_bools sa sA has
+  -- the common end: subtract the rounded second coefficient, correct by the mode
+  have keyT : ∀ (pf : UInt32) (tA tB : UInt64) (shv : Int32) (C2v hfv : U128) (R : U256) (lte gte ltm gtm : Bool) (Rf T : Nat),
+      R.w3.toNat * 2^64 + R.w2.toNat = Rf → 1 ≤ Rf → Rf ≤ 10^33 → 10^33 ≤ T → T < 10^34 →
+      (m = .NearestEven → 10^34 - Rf = T) →
+      (m ≠ .NearestEven → upB (!sA) sA m ltm gte = true → 10^34 - Rf + 1 = T) →
+      (m ≠ .NearestEven → upB (!sA) sA m ltm gte = false → dnB (!sA) sA m lte gtm = true → 10^34 - Rf - 1 = T) →
+      (m ≠ .NearestEven → upB (!sA) sA m ltm gte = false → dnB (!sA) sA m lte gtm = false → 10^34 - Rf = T) →
+      JT () pf tA tB shv C2v hfv R lte gte ltm gtm =
+        .ok (ofBits (encode (.fin sA T (((EB + (QB - 1) : Nat) : Int) - 6176))), pf) := by
+    intro pf tA tB shv C2v hfv R lte gte ltm gtm Rf T hR hRf1 hRf2 hT1 hT2 aRNE aUp aDn aSame
+    unfold JT
+    head_step
+    sym_exec
+    gen_args _ C1d
+    replace hC1d : C1d = if decide (P.w0 - R.w2 > P.w0) = true then ⟨P.w0 - R.w2, P.w1 - R.w3 - 1⟩ else ⟨P.w0 - R.w2, P.w1 - R.w3⟩ := hC1d
+    have hv : C1d.w1.toNat * 2^64 + C1d.w0.toNat = 10^34 - Rf := by
+      have h := sub128_words P.w1 P.w0 R.w3 R.w2
+      rw [hP34, hR, show (10^34 + 2^128 - Rf) % 2^128 = 10^34 - Rf from by
+        have : (10:Nat)^34 < 2^128 := by decide
+        omega] at h
+      rw [hC1d]
+      by_cases c : decide (P.w0 - R.w2 > P.w0) = true
+      · rw [if_pos c] at h ⊢; exact h
+      · rw [if_neg c] at h ⊢; exact h
+    clear hC1d
+    head_step
+    take_neg
+    · have h0 := C1d.w0.toNat_lt
+      have : C1d.w1.toNat < 2^63 := by
+        have : (10:Nat)^34 < 2^63 * 2^64 := by decide
+        omega
+      rw [decide_eq_true_eq, ge_iff_le, UInt64.le_iff_toNat_le, show (0x8000000000000000 : UInt64).toNat = 2^63 from rfl]
+      omega
+    head_step
+    sym_exec
+    gen_args _ yx
+    have hyx' : yx.toNat = (EB + (QB - 1)) * 2^49 := by
+      rw [hyx]
+      by_cases c : decide (x1 ≥ 1) = true
+      · rw [if_pos c]; exact exp_plus eb x1 EB (QB - 1) hbe hx1 (by omega)
+      · rw [if_neg c, hbe]
+        have : QB - 1 = 0 := by
+          rw [i32_ge, hx1, show (1 : Int32).toInt = 1 from by decide] at c
+          simp only [decide_eq_true_eq] at c; omega
+        rw [this]; rfl
+    clear hyx
+    have hEfin : EB + (QB - 1) < 2^14 := by omega
+    have h128 : (10:Nat)^34 + 1 < 2^128 := by decide
+    have h3334 : (10:Nat)^33 < 10^34 := by decide
+    head_step
+    by_cases hm : (m != RoundingMode.NearestEven) = true
+    · have hmne : m ≠ .NearestEven := by simpa using hm
+      take_pos
+      · exact hm
+      head_step
+      by_cases hup : upB (!sA) sA m ltm gte = true
+      · take_pos
+        · exact (show upB (sa == 0) (sa != 0) m ltm gte = true by rw [hz, hnz]; exact hup)
+        have hval := aUp hmne hup
+        have hv' := inc_words C1d.w1 C1d.w0 (by rw [hv]; omega)
+        rw [hv, hval] at hv'
+        head_step
+        sym_exec
+        gen_args _ hiC
+        head_step
+        take_neg
+        · rw [hhiC, eq_words, hv', show (542101086242752 : UInt64).toNat * 2^64 + (4003012203950112768 : UInt64).toNat = 10^34 from by decide]
+          simp only [decide_eq_true_eq]
+          omega
+        sym_exec!
+        rw [hhiC]
+        exact asm_ok sa yx _ _ pf sA T _ has hyx' hEfin hv' hT2
+      · take_neg
+        · exact (show ¬ upB (sa == 0) (sa != 0) m ltm gte = true by rw [hz, hnz]; exact hup)
+        have hup' : upB (!sA) sA m ltm gte = false := by simpa using hup
+        head_step
+        by_cases hdn : dnB (!sA) sA m lte gtm = true
+        · take_pos
+          · exact (show dnB (sa == 0) (sa != 0) m lte gtm = true by rw [hz, hnz]; exact hdn)
+          have hval := aDn hmne hup' hdn
+          have hv' := dec_words C1d.w1 C1d.w0 (by rw [hv]; omega)
+          rw [hv, hval] at hv'
+          head_step
+          sym_exec
+          gen_args _ hiC
+          head_step
+          take_neg
+          · rw [hhiC, eq_words, hv', show (54210108624275 : UInt64).toNat * 2^64 + (4089650035136921599 : UInt64).toNat = 10^33 - 1 from by decide]
+            simp only [decide_eq_true_eq]
+            omega
+          sym_exec!
+          rw [hhiC]
+          exact asm_ok sa yx _ _ pf sA T _ has hyx' hEfin hv' hT2
+        · take_neg
+          · exact (show ¬ dnB (sa == 0) (sa != 0) m lte gtm = true by rw [hz, hnz]; exact hdn)
+          have hdn' : dnB (!sA) sA m lte gtm = false := by simpa using hdn
+          have hval := aSame hmne hup' hdn'
+          sym_exec!
+          exact asm_ok sa yx _ _ pf sA T _ has hyx' hEfin (by rw [hv, hval]) hT2
+    · have hme : m = .NearestEven := by
+        cases m <;> first | rfl | exact absurd rfl hm
+      take_neg
+      · exact hm
+      have hval := aRNE hme
+      sym_exec!
+      exact asm_ok sa yx _ _ pf sA T _ has hyx' hEfin (by rw [hv, hval]) hT2
+  have h1i : (1 : Int32).toInt = 1 := by decide
+  have h0i : (0 : Int32).toInt = 0 := by decide
+  by_cases hQB2 : 2 ≤ QB
+  swap
+  · -- a one-digit second coefficient: nothing to round
+    have hQ1 : QB - 1 = 0 := by omega
+    have hind : ¬ decide (ind ≥ 0) = true := by
+      show ¬ decide (x1 - 1 ≥ 0) = true
+      rw [i32_ge, Int32.toInt_sub, hx1, h1i, h0i, hQ1, bmod32 _ (by omega) (by omega)]
+      simp
+    take_neg
+    · exact hind
+    sym_exec
+    rw [hQ1, Nat.pow_zero] at hrlt hdm hT
+    have hr0 : rv = 0 := by omega
+    have hcBa : cB = av := by omega
+    rw [if_pos hr0] at hT hpf
+    rw [hpf]
+    have hup0 : ∀ m : RoundingMode, upB (!sA) sA m false false = false := by
+      intro m; cases m <;> cases sA <;> rfl
+    have hdn0 : ∀ m : RoundingMode, dnB (!sA) sA m false false = false := by
+      intro m; cases m <;> cases sA <;> rfl
+    have hc33 : cB ≤ 10^33 := by rw [hcBa]; exact le_trans hav9 (by decide)
+    have hTe : 10^34 - cB = T := by rw [hT, hcBa]
+    gen_args _ _ _ _ _ _ _ Rv
+    have hRv' : Rv.w3.toNat * 2^64 + Rv.w2.toNat = cB := by rw [hRv]; exact hbc
+    refine keyT f default default default default default Rv false false false false cB T hRv' hcB0 hc33 hT1.1 hT1.2 (fun _ => hTe) ?_ ?_ (fun _ _ _ => hTe)
+    · intro _ h; rw [hup0] at h; exact absurd h (by decide)
+    · intro _ _ h; rw [hdn0] at h; exact absurd h (by decide)
+  -- `QB ≥ 2`: the second coefficient is rounded to its leading digit by the reciprocal block
+  have hxi : ind.toInt = ((QB - 2 : Nat) : Int) := by
+    show (x1 - 1).toInt = _
+    rw [Int32.toInt_sub, hx1, h1i, bmod32 _ (by omega) (by omega)]; omega
+  have hcB34 : bh.toNat * 2^64 + bl.toNat < 10^34 := by rw [hbc]; exact hbP
+  obtain ⟨m64, m128, K, tr, mask0, oh0, sh0, hM64, hM128, hK, hTR, hMK, hSH, hOH, hspec⟩ := H bh bl (QB - 2) (by omega) hcB34
+  obtain ⟨mask, sh, oh, hMK', hSH', hOH'⟩ := tabs_get (QB - 2) (by omega)
+  have e3 : 3 ≤ QB - 2 → mask0 = mask ∧ sh0 = sh ∧ oh0 = oh := fun h3 =>
+    ⟨Except.ok.inj ((hMK h3).symm.trans hMK'), Except.ok.inj ((hSH h3).symm.trans hSH'), Except.ok.inj ((hOH h3).symm.trans hOH')⟩
+  rw [← idx_i32 ind (QB - 2) hxi] at hM64 hK hTR hMK' hSH' hOH'
+  rw [hbc, show QB - 2 + 1 = QB - 1 from by omega, hav, hrv] at hspec
+  have hD := pow10_even (QB - 1) (by omega)
+  generalize hh : 10 ^ (QB - 1) / 2 = h at hspec hD
+  clear hMK hSH hOH
+  have hge : decide (ind ≥ 0) = true := by
+    rw [i32_ge, hxi, h0i]; exact decide_eq_true (by omega)
+  take_pos
+  · exact hge
+  have hspec' : ∀ R : U256, R.toNat' = (rbC2 (QB - 2) bh bl m64 m128).toNat' * K.toNat' →
+      ((rbQ (QB - 2) R sh).2.toNat * 2^64 + (rbQ (QB - 2) R sh).1.toNat = if rv < h then av else av + 1) ∧
+      rbGtHalf (QB - 2) R (rbHf (QB - 2) R mask) oh = decide (rv < h) ∧
+      (rv < h → rbGtT (QB - 2) R (rbHf (QB - 2) R mask) oh tr = decide (0 < rv)) ∧
+      rbMid R (rbHf (QB - 2) R mask) tr = decide (rv = h) := by
+    by_cases h3 : 3 ≤ QB - 2
+    · obtain ⟨rfl, rfl, rfl⟩ := e3 h3; exact hspec
+    · intro R hR
+      have hs := hspec R hR
+      have e1 : rbQ (QB - 2) R sh0 = rbQ (QB - 2) R sh := by unfold rbQ; rw [if_neg h3, if_neg h3]
+      have e2 : rbHf (QB - 2) R mask0 = rbHf (QB - 2) R mask := by
+        unfold rbHf; rw [if_pos (show QB - 2 ≤ 2 by omega), if_pos (show QB - 2 ≤ 2 by omega)]
+      have e4 : ∀ hfv, rbGtHalf (QB - 2) R hfv oh0 = rbGtHalf (QB - 2) R hfv oh := by
+        intro hfv; unfold rbGtHalf; rw [if_pos (show QB - 2 ≤ 2 by omega), if_pos (show QB - 2 ≤ 2 by omega)]
+      have e5 : ∀ hfv, rbGtT (QB - 2) R hfv oh0 tr = rbGtT (QB - 2) R hfv oh tr := by
+        intro hfv; unfold rbGtT; rw [if_pos (show QB - 2 ≤ 2 by omega), if_pos (show QB - 2 ≤ 2 by omega)]
+      rw [e1, e2, e4, e5] at hs
+      exact hs
+  clear hspec e3
+  rw [← hD] at hT hrlt
+  have c2 : decide (ind ≤ 2) = decide (QB - 2 ≤ 2) := by
+    rw [i32_le_lit, hxi, show (2 : Int32).toInt = 2 from by decide, decide_eq_decide]; omega
+  have c21 : decide (ind ≤ 21) = decide (QB - 2 ≤ 21) := by
+    rw [i32_le_lit, hxi, show (21 : Int32).toInt = 21 from by decide, decide_eq_decide]; omega
+  have c18 : decide (ind ≤ 18) = decide (QB - 2 ≤ 18) := by
+    rw [i32_le_lit, hxi, show (18 : Int32).toInt = 18 from by decide, decide_eq_decide]; omega
+  have c3 : decide (ind ≥ 3) = decide (3 ≤ QB - 2) := by
+    rw [i32_ge, hxi, show (3 : Int32).toInt = 3 from by decide, decide_eq_decide]; omega
+  extract_lets -underBinder +onlyGivenNames c2a c2b J1
+  have key1 : ∀ C2' : U128, C2' = rbC2 (QB - 2) bh bl m64 m128 →
+      J1 () C2' = .ok (ofBits (encode (.fin sA T (((EB + (QB - 1) : Nat) : Int) - 6176))), pf) := by
+    intro C2' hC2'
+    obtain ⟨RR, hMul, hRR⟩ := C01GenArith.gen_mul_128x128_to_256 C2' K
+    rw [hC2'] at hRR
+    obtain ⟨sQ, sG, sT, sM⟩ := hspec' RR hRR
+    clear hspec' hRR
+    unfold J1
+    head_step
+    sym_exec
+    gen_args _ hf
+    head_step
+    sym_exec
+    gen_args _ shv R2
+    have eR0 : R2.w0 = RR.w0 := by
+      rw [hR2]; split
+      · split <;> rfl
+      · rfl
+    have eR1 : R2.w1 = RR.w1 := by
+      rw [hR2]; split
+      · split <;> rfl
+      · rfl
+    have eQ : (R2.w2, R2.w3) = rbQ (QB - 2) RR sh := by
+      rw [hR2, c3]; unfold rbQ
+      by_cases h3 : 3 ≤ QB - 2
+      · rw [if_pos (decide_eq_true h3), if_pos h3]
+        by_cases h64 : decide (sh < 64) = true
+        · rw [if_pos h64, if_pos h64]
+        · rw [if_neg h64, if_neg h64]
+      · rw [if_neg (by simpa using h3), if_neg h3]
+    have eHf : hf = rbHf (QB - 2) RR mask := by
+      rw [hhf, c2, c21]; unfold rbHf
+      by_cases h2 : QB - 2 ≤ 2
+      · rw [if_pos (decide_eq_true h2), if_pos h2]
+      · rw [if_neg (by simpa using h2), if_neg h2]
+        by_cases h21 : QB - 2 ≤ 21
+        · rw [if_pos (decide_eq_true h21), if_pos h21]
+        · rw [if_neg (by simpa using h21), if_neg h21]
+    rw [← eHf] at sG sT sM
+    have eQ2 : R2.w3.toNat * 2^64 + R2.w2.toNat = if rv < h then av else av + 1 := by
+      rw [← sQ, ← eQ]
+    clear hhf hR2 hshv sQ
+    head_beta
+    extract_lets -underBinder +onlyGivenNames ff J2
+    have key2 : ∀ (pf1 : UInt32) (tA tB : UInt64) (ltm0 gtm0 : Bool), pf1 = pf → ltm0 = decide (¬ rv < h) →
+        gtm0 = decide (0 < rv ∧ rv < h) →
+        J2 () pf1 tA tB ltm0 gtm0 = .ok (ofBits (encode (.fin sA T (((EB + (QB - 1) : Nat) : Int) - 6176))), pf) := by
+      intro pf1 tA tB ltm0 gtm0 hpf1 hltm0 hgtm0
+      unfold J2
+      head_step
+      sym_exec
+      unfold rbMid at sM
+      have hw3 : R2.w3.toNat = 0 ∧ R2.w2.toNat = if rv < h then av else av + 1 := by
+        have := R2.w2.toNat_lt
+        have : (if rv < h then av else av + 1) ≤ 10 := by split <;> omega
+        omega
+      have hPe : P.w0.toNat % 2 = 0 := by
+        have := even34
+        omega
+      head_cases hM
+      · take_pos
+        · exact hM
+        rw [mid_glue, eR1, eR0, sM, decide_eq_true_eq] at hM
+        have hnlt : ¬ rv < h := by omega
+        rw [if_neg hnlt] at hw3 eQ2
+        have hpar : (tmp64 + R2.w2 &&& 1 == 1) = decide ((av + 1) % 2 = 1) := by
+          rw [(parity_word 0 (tmp64 + R2.w2)).1, decide_eq_decide]
+          show (0 * 2^64 + (P.w0 + R2.w2).toNat) % 2 = 1 ↔ _
+          rw [UInt64.toNat_add, hw3.2]
+          omega
+        by_cases hodd : (av + 1) % 2 = 1
+        · take_pos
+          · rw [hpar]; exact decide_eq_true hodd
+          sym_exec
+          gen_args _ Rd
+          replace hRd : Rd = if (R2.w2 - 1 == 18446744073709551615) = true then ⟨R2.w0, R2.w1, R2.w2 - 1, R2.w3 - 1⟩
+              else ⟨R2.w0, R2.w1, R2.w2 - 1, R2.w3⟩ := hRd
+          have hRdv : Rd.w3.toNat * 2^64 + Rd.w2.toNat = av := by
+            have hd := dec_words R2.w3 R2.w2 (by rw [eQ2]; omega)
+            rw [eQ2, Nat.add_sub_cancel] at hd
+            rw [hRd]
+            by_cases c : (R2.w2 - 1 == 18446744073709551615) = true
+            · rw [if_pos c] at hd ⊢; exact hd
+            · rw [if_neg c] at hd ⊢; exact hd
+          head_zeta
+          obtain ⟨aRNE, aUp, aDn, aSame⟩ := pow_adjust m sA av rv h hav1 hav9 hrlt true false false false av
+            (decide_eq_true ⟨hM, hodd⟩).symm (decide_eq_false (fun hh => by have := hh.2; omega)).symm
+            (decide_eq_false (by omega)).symm (decide_eq_false (by omega)).symm
+            (by rw [if_neg hnlt, if_pos ⟨hM, hodd⟩]) T hT
+          rw [hpf1]
+          exact keyT pf tA tB shv C2' hf Rd true ff false false av T hRdv hav1 (le_trans hav9 (by decide)) hT1.1 hT1.2
+            aRNE aUp aDn aSame
+        · take_neg
+          · rw [hpar]; simpa using hodd
+          obtain ⟨aRNE, aUp, aDn, aSame⟩ := pow_adjust m sA av rv h hav1 hav9 hrlt false true false false (av + 1)
+            (decide_eq_false (fun hh => hodd hh.2)).symm (decide_eq_true ⟨hM, by omega⟩).symm
+            (decide_eq_false (by omega)).symm (decide_eq_false (by omega)).symm
+            (by rw [if_neg hnlt, if_neg (fun hh => hodd hh.2)]) T hT
+          rw [hpf1]
+          exact keyT pf tA tB shv C2' hf R2 ff true false false (av + 1) T eQ2 (by omega)
+            (le_trans (Nat.succ_le_succ hav9) (by decide)) hT1.1 hT1.2 aRNE aUp aDn aSame
+      · take_neg
+        · exact hM
+        rw [mid_glue, eR1, eR0, sM, decide_eq_true_eq] at hM
+        obtain ⟨aRNE, aUp, aDn, aSame⟩ := pow_adjust m sA av rv h hav1 hav9 hrlt false false ltm0 gtm0
+            (if rv < h then av else av + 1)
+            (decide_eq_false (fun hh => hM hh.1)).symm (decide_eq_false (fun hh => hM hh.1)).symm
+            (by rw [hltm0, decide_eq_decide]; omega) hgtm0
+            (by by_cases c : rv < h
+                · rw [if_pos c, if_pos c]
+                · rw [if_neg c, if_neg c, if_neg (fun hh => hM hh.1)]) T hT
+        rw [hpf1]
+        exact keyT pf tA tB shv C2' hf R2 ff ff ltm0 gtm0 _ T eQ2 (by split <;> omega)
+            (le_trans (show (if rv < h then av else av + 1) ≤ 10 by split <;> omega) (by decide)) hT1.1 hT1.2 aRNE aUp aDn aSame
+    have leafG : ∀ (Texp : Bool) (tA tB : UInt64), rv < h → Texp = decide (0 < rv) →
+        (if Texp = true then J2 () (f ||| c_StatusFlags_BID_INEXACT_EXCEPTION) tA tB ff true else J2 () f tA tB ff ff)
+          = .ok (ofBits (encode (.fin sA T (((EB + (QB - 1) : Nat) : Int) - 6176))), pf) := by
+      intro Texp tA tB hlt hTe
+      by_cases r0 : 0 < rv
+      · rw [hTe, if_pos (decide_eq_true r0)]
+        exact key2 (f ||| c_StatusFlags_BID_INEXACT_EXCEPTION) tA tB ff true (by rw [hpf, if_neg (by omega)])
+          (decide_eq_false (not_not.2 hlt)).symm (decide_eq_true ⟨r0, hlt⟩).symm
+      · rw [hTe, if_neg (by simpa using r0)]
+        exact key2 f tA tB ff ff (by rw [hpf, if_pos (by omega)])
+          (decide_eq_false (not_not.2 hlt)).symm (decide_eq_false (fun hh => r0 hh.1)).symm
+    have leafL : ∀ (tA tB : UInt64), ¬ rv < h →
+        J2 () (f ||| c_StatusFlags_BID_INEXACT_EXCEPTION) tA tB true ff
+          = .ok (ofBits (encode (.fin sA T (((EB + (QB - 1) : Nat) : Int) - 6176))), pf) := by
+      intro tA tB hlt
+      have h1 : 1 ≤ h := by
+        have : 0 < 10 ^ (QB - 1) := Nat.pow_pos (by decide)
+        omega
+      exact key2 (f ||| c_StatusFlags_BID_INEXACT_EXCEPTION) tA tB true ff (by rw [hpf, if_neg (by omega)])
+        (decide_eq_true hlt).symm (decide_eq_false (fun hh => hlt hh.2)).symm
+    clear key2
+    unfold rbGtHalf at sG
+    unfold rbGtT at sT
+    by_cases h2 : QB - 2 ≤ 2
+    · have hr1 : decide (ind ≤ 2) = true := by rw [c2]; exact decide_eq_true h2
+      rw [if_pos h2] at sG sT
+      rw [← eR1, ← eR0] at sG sT
+      take_pos
+      · exact hr1
+      head_cases hG
+      · take_pos
+        · exact hG
+        rw [sG, decide_eq_true_eq] at hG
+        have sT' := sT hG
+        sym_exec
+        refine leafG _ 0 0 hG ?_
+        rw [or_glue]; exact sT'
+      · take_neg
+        · exact hG
+        rw [sG, decide_eq_true_eq] at hG
+        sym_exec
+        exact leafL 0 0 hG
+    have hr1 : ¬ decide (ind ≤ 2) = true := by rw [c2]; simpa using h2
+    rw [if_neg h2] at sG sT
+    take_neg
+    · exact hr1
+    by_cases h21 : QB - 2 ≤ 21
+    · have hr2 : decide (ind ≤ 21) = true := by rw [c21]; exact decide_eq_true h21
+      rw [if_pos h21] at sG sT
+      rw [← eR1, ← eR0] at sG sT
+      take_pos
+      · exact hr2
+      sym_exec
+      head_cases hG
+      · take_pos
+        · exact hG
+        rw [g2_glue, sG, decide_eq_true_eq] at hG
+        sym_exec
+        head_step
+        sym_exec
+        refine leafG _ 0 0 hG ?_
+        rw [t2_glue]; exact sT hG
+      · take_neg
+        · exact hG
+        rw [g2_glue, sG, decide_eq_true_eq] at hG
+        sym_exec
+        exact leafL 0 0 hG
+    · have hr2 : ¬ decide (ind ≤ 21) = true := by rw [c21]; simpa using h21
+      rw [if_neg h21] at sG sT
+      rw [← eR1, ← eR0] at sG sT
+      take_neg
+      · exact hr2
+      sym_exec
+      head_cases hG
+      · take_pos
+        · exact hG
+        rw [or1_glue, sG, decide_eq_true_eq] at hG
+        sym_exec
+        refine leafG _ 0 0 hG ?_
+        rw [t2_glue]; exact sT hG
+      · take_neg
+        · exact hG
+        rw [or1_glue, sG, decide_eq_true_eq] at hG
+        sym_exec
+        exact leafL 0 0 hG
+  by_cases h18 : QB - 2 ≤ 18
+  · have hr18 : decide (ind ≤ 18) = true := by rw [c18]; exact decide_eq_true h18
+    have hM64' := hM64 h18
+    take_pos
+    · exact hr18
+    sym_exec
+    head_cases hc
+    · take_pos
+      · exact hc
+      refine key1 _ ?_
+      have hc' : decide (bl + m64 < bl) = true := hc
+      unfold rbC2; rw [if_pos h18, if_pos hc']
+    · take_neg
+      · exact hc
+      refine key1 _ ?_
+      have hc' : ¬ decide (bl + m64 < bl) = true := hc
+      unfold rbC2; rw [if_pos h18, if_neg hc']
+  · have hr18 : ¬ decide (ind ≤ 18) = true := by rw [c18]; simpa using h18
+    have hi19 : (ind - 19).toInt = ((QB - 2 - 19 : Nat) : Int) := by
+      rw [Int32.toInt_sub, hxi, show (19 : Int32).toInt = 19 from by decide, bmod32 _ (by omega) (by omega)]; omega
+    have hM128' := hM128 h18
+    rw [← idx_i32 (ind - 19) (QB - 2 - 19) hi19] at hM128'
+    take_neg
+    · exact hr18
+    sym_exec
+    head_cases hc
+    · take_pos
+      · exact hc
+      refine key1 _ ?_
+      have hc' : decide (bl + m128.w0 < bl) = true := hc
+      unfold rbC2; rw [if_neg h18, if_pos hc']
+    · take_neg
+      · exact hc
+      refine key1 _ ?_
+      have hc' : ¬ decide (bl + m128.w0 < bl) = true := hc
+      unfold rbC2; rw [if_neg h18, if_neg hc']
+
+/-! ## 4. The sub-case in terms of the decoded operands -/
+
+/-- in terms of the decoded operands: with `H` the operand of the larger exponent (`x` on a tie) and `L` the other one,
+`q_H + e_H − q_L − e_L = 34` (the code's `delta = P34`), the signs differ and `C_H = 10^(q_H − 1)` (the code's first test in
+that branch fails): the region of the former defect D1 -/
+def PowCond (s1 : Bool) (c1 : Nat) (e1 : Int) (s2 : Bool) (c2 : Nat) (e2 : Int) : Prop :=
+  if e2 ≤ e1 then (ndigits c1 : Int) + e1 - ndigits c2 - e2 = 34 ∧ ¬ s1 = s2 ∧ c1 = 10 ^ (ndigits c1 - 1)
+  else (ndigits c2 : Int) + e2 - ndigits c1 - e1 = 34 ∧ ¬ s2 = s1 ∧ c2 = 10 ^ (ndigits c2 - 1)
+
+instance (s1 : Bool) (c1 : Nat) (e1 : Int) (s2 : Bool) (c2 : Nat) (e2 : Int) : Decidable (PowCond s1 c1 e1 s2 c2 e2) := by
+  unfold PowCond; infer_instance
+
+/-- **`bid128_add`, two non-zero numbers, `PowCond`** (the sub-case "opposite signs, first coefficient a power of ten" of the
+code's branch `delta = P34`; region of the former defect D1): `C_H` is padded to 35 digits (`10^34`), `C_L` is rounded to its
+leading digit by the reciprocal block (or taken as it is when it has one digit), the difference is corrected by one unit as
+the rounding mode, the sign and the block's indicators prescribe.  This is `addD`, datum and flags, for all five modes. -/
+theorem add_d34pow (H : RoundBlockSpec) (x y : U128) (m : RoundingMode) (f : UInt32) {s1 s2 : Bool} {c1 c2 : Nat} {e1 e2 : Int}
+    (hx : decode (bitsOf x) = .fin s1 c1 e1) (hy : decode (bitsOf y) = .fin s2 c2 e2) (hc1 : c1 ≠ 0) (hc2 : c2 ≠ 0)
+    (h : PowCond s1 c1 e1 s2 c2 e2) :
+    bid128_add x y m f =
+      .ok (ofBits (encode (addD (md m) (decode (bitsOf x)) (decode (bitsOf y))).1),
+           f ||| UInt32.ofNat (addD (md m) (decode (bitsOf x)) (decode (bitsOf y))).2) := by
+  obtain ⟨-, -, -, hxe, hxlo, hxhi, -, -⟩ := fin_view x hx
+  obtain ⟨-, -, -, hye, hylo, hyhi, -, -⟩ := fin_view y hy
+  rw [hx, hy, addD_fin_fin]
+  unfold PowCond at h
+  by_cases hle : e2 ≤ e1
+  · rw [if_pos hle] at h
+    have hab : Ordered x y x y := Or.inl ⟨rfl, rfl, by
+      rw [decide_eq_true_eq, UInt64.lt_iff_toNat_lt, hxe, hye]; omega⟩
+    exact add_d34pow_core H x y x y m f hab hx hy hc1 hc2 h.1 h.2.1 h.2.2
+  · rw [if_neg hle] at h
+    have hab : Ordered x y y x := Or.inr ⟨rfl, rfl, by
+      rw [decide_eq_true_eq, UInt64.lt_iff_toNat_lt, hxe, hye]; omega⟩
+    rw [addFin_comm]
+    exact add_d34pow_core H x y y x m f hab hy hx hc2 hc1 h.1 h.2.1 h.2.2
+
+-- the witness of the former defect D1: 1.000E-23 + (−4.5E-57), Downward: 9.999999999999999999999999999999995E-24, inexact
+example (H : RoundBlockSpec) : bid128_add ⟨1000, 0x300c000000000000⟩ ⟨45, 0xafcc000000000000⟩ .Downward 0
+    = .ok (ofBits (encode (.fin false (10^34 - 5) (-57))), 0x20) := by
+  rw [add_d34pow H (s1 := false) (c1 := 1000) (e1 := -26) (s2 := true) (c2 := 45) (e2 := -58) _ _ _ _ (by decide +kernel)
+    (by decide +kernel) (by decide) (by decide) (by decide +kernel)]
+  decide +kernel
+-- the same operands, to nearest: 1.000000000000000000000000000000000E-23 (a tie of the result: `10^35 − 45` ends in 55, the odd quotient steps up)
+example (H : RoundBlockSpec) : bid128_add ⟨1000, 0x300c000000000000⟩ ⟨45, 0xafcc000000000000⟩ .NearestEven 0
+    = .ok (ofBits (encode (.fin false (10^34 - 4) (-57))), 0x20) := by
+  rw [add_d34pow H (s1 := false) (c1 := 1000) (e1 := -26) (s2 := true) (c2 := 45) (e2 := -58) _ _ _ _ (by decide +kernel)
+    (by decide +kernel) (by decide) (by decide) (by decide +kernel)]
+  decide +kernel
+
+/-! ## 5. One turn of the rounding loop -/
+
+/-- `n` turns of a loop whose body does not look at the counter -/
+def iter {σ : Type} (g : σ → Except String (ForInStep σ)) : Nat → σ → Except String σ
+  | 0, s => pure s
+  | n + 1, s => g s >>= fun r => match r with
+    | .done s' => pure s'
+    | .yield s' => iter g n s'
+
+theorem forIn_list_iter {σ α : Type} (g : σ → Except String (ForInStep σ)) (l : List α) (s : σ) :
+    forIn l s (fun _ st => g st) = iter g l.length s := by
+  induction l generalizing s with
+  | nil => rfl
+  | cons a l ih =>
+    rw [List.forIn_cons, List.length_cons]
+    show _ = g s >>= _
+    congr 1
+    funext r
+    cases r with
+    | done s' => rfl
+    | yield s' => exact ih s'
+
+theorem forIn_range_iter {σ : Type} (n : Nat) (g : σ → Except String (ForInStep σ)) (s : σ) :
+    forIn [0:n] s (fun _ st => g st) = iter g n s := by
+  rw [Std.Legacy.Range.forIn_eq_forIn_range', forIn_list_iter]
+  simp [Std.Legacy.Range.size]
+
+/-- the first turn of a `for _ in [0:n+1]` loop whose body does not look at the counter -/
+theorem loop_first {σ β : Type} (n : Nat) (f : Nat → σ → Except String (ForInStep σ)) (hf : ∀ i j st, f i st = f j st)
+    (s : σ) (post : σ → Except String β) :
+    (forIn [0:n+1] s f >>= post) =
+      (f 0 s >>= fun r => match r with
+        | .done s' => post s'
+        | .yield s' => (forIn [0:n] s' f >>= post)) := by
+  have e : f = fun _ st => f 0 st := by funext i st; exact hf i 0 st
+  rw [e, forIn_range_iter]
+  show (f 0 s >>= _) >>= post = (f 0 s >>= _)
+  cases f 0 s with
+  | error e => rfl
+  | ok r =>
+    cases r with
+    | done s' => rfl
+    | yield s' =>
+      show iter (f 0) n s' >>= post = (forIn [0:n] s' (fun _ st => f 0 st) >>= post)
+      rw [forIn_range_iter]
+
+/-! ### Stepping inside a frame `X >>= K` (the loop body followed by the text after the loop) -/
+
+theorem frame_congr {α β : Type} {X Y : Except String α} (K : α → Except String β) {R : Except String β}
+    (h : X = Y) (h2 : (Y >>= K) = R) : (X >>= K) = R := h ▸ h2
+
+open Lean Meta Elab Tactic in
+/-- the goal is `(X >>= K) = R`: run a stepping tactic (one that introduces no variables) on `X`.  Side goals first, then
+the continuing goal `(X' >>= K) = R`. -/
+elab "kframe " t:tacticSeq : tactic => withMainContext do
+  let g ← getMainGoal
+  let tgt := (← instantiateMVars (← g.getType)).consumeMData
+  let some (_, lhs, rhs) := tgt.eq? | throwError "kframe: not an equation"
+  unless lhs.isAppOfArity ``Bind.bind 6 do throwError "kframe: no frame"
+  let args := lhs.getAppArgs
+  let X := args[4]!
+  let K := args[5]!
+  let tyX ← inferType X
+  let Y ← mkFreshExprSyntheticOpaqueMVar tyX
+  let g1 ← mkFreshExprSyntheticOpaqueMVar (← mkEq X Y)
+  let gs ← Tactic.run g1.mvarId! (evalTactic t)
+  let some main := gs.getLast? | throwError "kframe: no continuing goal"
+  let mt := (← instantiateMVars (← main.getType)).consumeMData
+  let some (_, Xn, _) := mt.eq? | throwError "kframe: the continuing goal is not an equation"
+  Y.mvarId!.assign Xn
+  main.assign (← mkEqRefl Xn)
+  let Y' ← instantiateMVars Y
+  let newLhs := mkAppN lhs.getAppFn (args.set! 4 Y')
+  let g2 ← mkFreshExprSyntheticOpaqueMVar (← mkEq newLhs rhs)
+  let pr ← mkAppOptM ``frame_congr #[none, none, X, Y', K, rhs, g1, g2]
+  g.assign pr
+  replaceMainGoal (gs.dropLast ++ [g2.mvarId!])
+
+open Lean Meta Elab Tactic in
+/-- lift the `have`s in front of `X` out of the frame `X >>= K` (so that `extract_lets` sees them) -/
+elab "klet" : tactic => withMainContext do
+  let g ← getMainGoal
+  let tgt := (← instantiateMVars (← g.getType)).consumeMData
+  let some (ty, lhs, rhs) := tgt.eq? | throwError "klet: not an equation"
+  unless lhs.isAppOfArity ``Bind.bind 6 do throwError "klet: no frame"
+  let args := lhs.getAppArgs
+  let X := args[4]!.headBeta
+  let rec go (e : Expr) (fuel : Nat) : Expr :=
+    match fuel with
+    | 0 => mkAppN lhs.getAppFn (args.set! 4 e)
+    | fuel + 1 =>
+      match e with
+      | .letE n t v b nd => .letE n t v (go b fuel) nd
+      | .mdata _ e => go e fuel
+      | e => mkAppN lhs.getAppFn (args.set! 4 e)
+  -- the frame's other arguments have no loose bound variables, so they can move under the binders
+  let newLhs := go X 1000
+  let g' ← g.replaceTargetDefEq (← mkEq newLhs rhs)
+  replaceMainGoal [g']
+
+open Lean Meta Elab Tactic in
+/-- `X = F a₁ … aₙ` in the frame: replace the arguments named by fresh variables, as `gen_args` -/
+elab "kgen_args" ns:(ppSpace colGt binderIdent)* : tactic => do
+  for i in [0:ns.size] do
+    match ns[i]! with
+    | `(binderIdent| $n:ident) =>
+      let g ← getMainGoal
+      let g'' ← g.withContext do
+        let t := (← instantiateMVars (← g.getType)).consumeMData
+        let some (ty, lhs0, rhs) := t.eq? | throwError "kgen_args: not an equation"
+        unless lhs0.isAppOfArity ``Bind.bind 6 do throwError "kgen_args: no frame"
+        let fargs := lhs0.getAppArgs
+        let lhs := fargs[4]!
+        let u ← getLevel ty
+        let f := lhs.getAppFn
+        let as := lhs.getAppArgs
+        if i ≥ as.size then throwError "kgen_args: only {as.size} arguments"
+        let a := as[i]!
+        let aTy ← inferType a
+        let v ← getLevel aTy
+        let name := n.getId
+        let hname := Name.mkSimple ("h" ++ name.toString)
+        let newTy ← withLocalDeclD name aTy fun x => do
+          let eqn := mkApp3 (.const ``Eq [v]) aTy x a
+          let body := mkApp3 (.const ``Eq [u]) ty (mkAppN lhs0.getAppFn (fargs.set! 4 (mkAppN f (as.set! i x)))) rhs
+          mkForallFVars #[x] (← mkArrow eqn body)
+        let g' ← mkFreshExprSyntheticOpaqueMVar newTy
+        g.assign (mkApp2 g' a (Dec.C01GenAdd.Sym.mkEqRefl' v aTy a))
+        let (_, g'') ← g'.mvarId!.introN 2 [name, hname]
+        pure g''
+      replaceMainGoal [g'']
+    | _ => pure ()
+
+open Lean Meta Elab Tactic in
+/-- case distinction on the test at the head of `X` in the frame -/
+elab "khead_cases " h:ident : tactic => withMainContext do
+  let g ← getMainGoal
+  let t := (← instantiateMVars (← g.getType)).consumeMData
+  let some (_, lhs0, _) := t.eq? | throwError "khead_cases: not an equation"
+  unless lhs0.isAppOfArity ``Bind.bind 6 do throwError "khead_cases: no frame"
+  let lhs ← whnfCore lhs0.getAppArgs[4]!
+  unless lhs.isAppOfArity ``ite 5 do throwError "khead_cases: no test at the head"
+  let c := lhs.getAppArgs[1]!
+  let cs ← Lean.Elab.Term.exprToSyntax c
+  evalTactic (← `(tactic| by_cases $h : $cs))
+
+open Lean Meta Elab Tactic in
+/-- name the continuation of the frame `X >>= K`: a variable `K` with `hK : (the text) = K` -/
+elab "kname " k:ident hk:ident : tactic => withMainContext do
+  let g ← getMainGoal
+  let t := (← instantiateMVars (← g.getType)).consumeMData
+  let some (_, lhs0, _) := t.eq? | throwError "kname: not an equation"
+  unless lhs0.isAppOfArity ``Bind.bind 6 do throwError "kname: no frame"
+  let K := lhs0.getAppArgs[5]!
+  let (_, g') ← g.generalize #[{ expr := K, xName? := some k.getId, hName? := some hk.getId }]
+  replaceMainGoal [g']
+
+open Lean Meta Elab Tactic in
+elab "kshow_head " n:num : tactic => withMainContext do
+  let g ← getMainGoal
+  let t := (← instantiateMVars (← g.getType)).consumeMData
+  let some (_, lhs0, _) := t.eq? | throwError "not an equation"
+  let lhs := lhs0.getAppArgs[4]!
+  let s := toString (← withOptions (fun o => (o.set `pp.deepTerms.threshold (8:Nat)).set `pp.deepTerms false) (ppExpr lhs))
+  logInfo m!"{(s.take n.getNat)}"
+
+open Lean Meta Elab Tactic in
+/-- β-reduce the head of the left-hand side (or of `X` in a frame `X >>= K`) and substitute the `have`s in front of it whose
+value is not a λ (the join points stay) -/
+elab "head_zeta_vals" : tactic => withMainContext do
+  let g ← getMainGoal
+  let t := (← instantiateMVars (← g.getType)).consumeMData
+  let some (ty, lhs, rhs) := t.eq? | throwError "head_zeta_vals: not an equation"
+  let rec go (e : Expr) (fuel : Nat) : Expr :=
+    match fuel with
+    | 0 => e
+    | fuel + 1 =>
+      match e with
+      | .letE _ _ v b _ => if v.isLambda then e else go (b.instantiate1 v) fuel
+      | .mdata _ e => go e fuel
+      | e => let e' := e.headBeta; if e' == e then e else go e' fuel
+  let newLhs :=
+    if lhs.isAppOfArity ``Bind.bind 6 then
+      let args := lhs.getAppArgs
+      mkAppN lhs.getAppFn (args.set! 4 (go args[4]! 1000))
+    else go lhs 1000
+  let g' ← g.replaceTargetDefEq (← mkEq newLhs rhs)
+  replaceMainGoal [g']
+
+open Lean Meta Elab Tactic in
+/-- reduce the projections of explicit tuples everywhere in the left-hand side (the loop state unpacked by the body) -/
+elab "clean_proj" : tactic => withMainContext do
+  let g ← getMainGoal
+  let t := (← instantiateMVars (← g.getType)).consumeMData
+  let some (ty, lhs, rhs) := t.eq? | throwError "clean_proj: not an equation"
+  let lhs' ← Core.transform lhs (post := fun e => do
+    match e with
+    | .proj ``Prod i s =>
+      if s.isAppOfArity ``Prod.mk 4 then return .done (s.getAppArgs[2 + i]!) else return .continue
+    | _ =>
+      if e.isAppOfArity ``Prod.fst 3 && e.appArg!.isAppOfArity ``Prod.mk 4 then return .done (e.appArg!.getAppArgs[2]!)
+      else if e.isAppOfArity ``Prod.snd 3 && e.appArg!.isAppOfArity ``Prod.mk 4 then return .done (e.appArg!.getAppArgs[3]!)
+      else return .continue)
+  let g' ← g.replaceTargetDefEq (← mkEq lhs' rhs)
+  replaceMainGoal [g']
+
+/-! ## 6. The rounding loop: pieces -/
+
+/-- the multiplication `C1 · 10^scale` at the start of a turn of the loop, as the code selects it -/
+def scaleK {β : Type} (q1 sc : Int32) (ah al : UInt64) (K : U128 → Except String β) : Except String β :=
+  if decide (sc ≥ 20) = true then (do
+    let t ← tbl128 Dec.Gen.BID_TEN2K128 (UInt64.ofInt (toI (sc - 20)))
+    let C1 ← mul_128x64_to_128 al t
+    K C1)
+  else if decide (sc ≥ 1) = true then
+    (if decide (q1 ≤ 19) = true then (do
+      let t ← tbl64 Dec.Gen.BID_TEN2K64 (UInt64.ofInt (toI sc))
+      let C1 ← mul_64x64_to_128MACH al t
+      K C1)
+    else (do
+      let t ← tbl64 Dec.Gen.BID_TEN2K64 (UInt64.ofInt (toI sc))
+      let C1 ← mul_128x64_to_128 t ⟨al, (⟨(default : U128).w0, ah⟩ : U128).w1⟩
+      K C1))
+  else K ⟨al, (⟨(default : U128).w0, ah⟩ : U128).w1⟩
+
+theorem scaleK_ok {β : Type} (q1 sc : Int32) (ah al : UInt64) (C Q S : Nat) (hC : ah.toNat * 2^64 + al.toNat = C)
+    (hq : q1.toInt = Q) (hsc : sc.toInt = S) (hQ : Q = ndigits C) (hC0 : 0 < C) (hfit : Q + S ≤ 35) :
+    ∃ P : U128, P.toNat' = C * 10 ^ S ∧ ∀ K : U128 → Except String β, scaleK q1 sc ah al K = K P := by
+  by_cases hS : 1 ≤ S
+  · obtain ⟨P, hP, hK⟩ := powK_ok (β := β) q1 sc ah al C Q S hC hq hsc hQ hC0 hS hfit
+    refine ⟨P, hP, fun K => ?_⟩
+    rw [← hK K]
+    unfold scaleK powK
+    have h1 : decide (sc ≥ 1) = true := by
+      rw [i32_ge, hsc, show (1 : Int32).toInt = 1 from by decide]; exact decide_eq_true (by omega)
+    rw [if_pos h1]
+  · have hS0 : S = 0 := by omega
+    subst hS0
+    refine ⟨⟨al, ah⟩, ?_, fun K => ?_⟩
+    · show al.toNat + 2^64 * ah.toNat = _
+      omega
+    · unfold scaleK
+      have h20 : ¬ decide (sc ≥ 20) = true := by
+        rw [i32_ge, hsc, show (20 : Int32).toInt = 20 from by decide]; simp
+      have h1 : ¬ decide (sc ≥ 1) = true := by
+        rw [i32_ge, hsc, show (1 : Int32).toInt = 1 from by decide]; simp
+      rw [if_neg h20, if_neg h1]
+
+theorem ite_pair (tI : Bool) (r : U128) (a b : UInt32) :
+    (if tI = true then (r, a) else (r, b)) = (r, if tI = true then a else b) := by cases tI <;> rfl
+
+theorem u128_ext' (P Q : U128) (h : P.toNat' = Q.toNat') : P = Q := by
+  cases P with | mk p0 p1 => cases Q with | mk q0 q1 =>
+  have h' : p0.toNat + 2^64 * p1.toNat = q0.toNat + 2^64 * q1.toNat := h
+  have := p0.toNat_lt; have := q0.toNat_lt
+  have e0 : p0 = q0 := by rw [← UInt64.toNat_inj]; omega
+  have e1 : p1 = q1 := by rw [← UInt64.toNat_inj]; omega
+  rw [e0, e1]
+
+theorem scaleK_ok' (q1 sc : Int32) (ah al : UInt64) (C Q S : Nat) (hC : ah.toNat * 2^64 + al.toNat = C)
+    (hq : q1.toInt = Q) (hsc : sc.toInt = S) (hQ : Q = ndigits C) (hC0 : 0 < C) (hfit : Q + S ≤ 35) :
+    ∃ P : U128, P.toNat' = C * 10 ^ S ∧ ∀ (β : Type) (K : U128 → Except String β), scaleK q1 sc ah al K = K P := by
+  obtain ⟨P, hP, -⟩ := scaleK_ok (β := Unit) q1 sc ah al C Q S hC hq hsc hQ hC0 hfit
+  refine ⟨P, hP, fun β K => ?_⟩
+  obtain ⟨P', hP', hK'⟩ := scaleK_ok (β := β) q1 sc ah al C Q S hC hq hsc hQ hC0 hfit
+  rw [hK', u128_ext' P' P (by rw [hP', hP])]
+
+/-- the indicators of `B + (C2 rounded to k digits less)` and what the mode correction makes of them -/
+theorem add_adjust (m : RoundingMode) (sA : Bool) (B a r h : Nat) (hr : r < 2 * h)
+    (lte gte ltm gtm : Bool) (Rf : Nat)
+    (hlte : lte = decide (r = h ∧ (B + a + 1) % 2 = 0)) (hgte : gte = decide (r = h ∧ (B + a + 1) % 2 = 1))
+    (hltm : ltm = decide (0 < r ∧ r < h)) (hgtm : gtm = decide (h < r))
+    (hRf : Rf = if r < h then a else if r = h ∧ (B + a + 1) % 2 = 1 then a else a + 1)
+    (T : Nat) (hT : T = if r = 0 then B + a else roundInt (md m) sA (B + a) r (2 * h)) :
+    (m = .NearestEven → B + Rf = T) ∧
+    (m ≠ .NearestEven → upB (!sA) sA m ltm gte = true → B + Rf + 1 = T) ∧
+    (m ≠ .NearestEven → upB (!sA) sA m ltm gte = false → dnB (!sA) sA m lte gtm = true → B + Rf - 1 = T) ∧
+    (m ≠ .NearestEven → upB (!sA) sA m ltm gte = false → dnB (!sA) sA m lte gtm = false → B + Rf = T) := by
+  subst hlte hgte hltm hgtm hRf hT
+  have hodd : (B + a) % 2 = (B + a + 1 + 1) % 2 := by omega
+  generalize hP : (B + a + 1) % 2 = p at *
+  have hp : p = 0 ∨ p = 1 := by omega
+  have hpp : (B + a) % 2 = 1 - p := by omega
+  unfold roundInt roundUp upB dnB
+  rcases Nat.lt_trichotomy r h with c | c | c
+  · by_cases r0 : r = 0
+    · subst r0
+      cases m <;> cases sA <;> simp [md, c] <;> omega
+    · cases m <;> cases sA <;> simp [md, c, r0, hpp] <;> (try split_ifs) <;> omega
+  · subst c
+    have r0 : r ≠ 0 := by omega
+    rcases hp with p0 | p0 <;> subst p0 <;>
+    cases m <;> cases sA <;> simp [md, r0, hpp] <;> (try split_ifs) <;> omega
+  · have r0 : r ≠ 0 := by omega
+    have nc : ¬ r < h := by omega
+    have nc2 : ¬ r = h := by omega
+    cases m <;> cases sA <;> simp [md, c, r0, hpp, nc, nc2] <;> (try split_ifs) <;> omega
+
+/-- the indicators of `B − (C2 rounded to k digits less)` and what the mode correction makes of them -/
+theorem sub_adjust (m : RoundingMode) (sA : Bool) (B a r h : Nat) (hB : a + 2 ≤ B) (hr : r < 2 * h)
+    (lte gte ltm gtm : Bool) (Rf : Nat)
+    (hlte : lte = decide (r = h ∧ (B + a + 1) % 2 = 1)) (hgte : gte = decide (r = h ∧ (B + a + 1) % 2 = 0))
+    (hltm : ltm = decide (h < r)) (hgtm : gtm = decide (0 < r ∧ r < h))
+    (hRf : Rf = if r < h then a else if r = h ∧ (B + a + 1) % 2 = 1 then a else a + 1)
+    (T : Nat) (hT : T = if r = 0 then B - a else roundInt (md m) sA (B - a - 1) (2 * h - r) (2 * h)) :
+    (m = .NearestEven → B - Rf = T) ∧
+    (m ≠ .NearestEven → upB (!sA) sA m ltm gte = true → B - Rf + 1 = T) ∧
+    (m ≠ .NearestEven → upB (!sA) sA m ltm gte = false → dnB (!sA) sA m lte gtm = true → B - Rf - 1 = T) ∧
+    (m ≠ .NearestEven → upB (!sA) sA m ltm gte = false → dnB (!sA) sA m lte gtm = false → B - Rf = T) := by
+  subst hlte hgte hltm hgtm hRf hT
+  generalize hP : (B + a + 1) % 2 = p at *
+  have hp : p = 0 ∨ p = 1 := by omega
+  have hpp : (B - a - 1) % 2 = p := by omega
+  unfold roundInt roundUp upB dnB
+  rcases Nat.lt_trichotomy r h with c | c | c
+  · by_cases r0 : r = 0
+    · subst r0
+      cases m <;> cases sA <;> simp [md, c] <;> omega
+    · cases m <;> cases sA <;> simp [md, c, r0, hpp] <;> (try split_ifs) <;> omega
+  · subst c
+    have r0 : r ≠ 0 := by omega
+    have e : 2 * r - r = r := by omega
+    rcases hp with p0 | p0 <;> subst p0 <;>
+    cases m <;> cases sA <;> simp [md, r0, hpp, e] <;> (try split_ifs) <;> omega
+  · have r0 : r ≠ 0 := by omega
+    have nc : ¬ r < h := by omega
+    have nc2 : ¬ r = h := by omega
+    cases m <;> cases sA <;> simp [md, c, r0, hpp, nc, nc2] <;> (try split_ifs) <;> omega
+
+/-- `B·10^k + (a·10^k + r)` with `B + a + 1` still a 34-digit number: one rounding at `k` digits -/
+theorem finish_add1 (mode : Mode) (sA : Bool) (k B a r : Nat) (eB : Int) (hB1 : 10^33 ≤ B) (hB2 : B + a + 1 < 10^34)
+    (hr : r < 10 ^ k) (he : -6176 ≤ eB) (hx : eB + k ≤ 6111) :
+    finish mode sA (B * 10^k + (a * 10^k + r)) 1 eB eB =
+      if r = 0 then (.fin sA (B + a) (eB + k), 0)
+      else (.fin sA (roundInt mode sA (B + a) r (10^k)) (eB + k), fInexact) := by
+  have hp : 0 < 10 ^ k := Nat.pow_pos (by decide)
+  have e : B * 10^k + (a * 10^k + r) = (B + a) * 10^k + r := by rw [Nat.add_mul]; omega
+  rw [e]
+  by_cases r0 : r = 0
+  · subst r0
+    rw [if_pos rfl, Nat.add_zero]
+    refine finish_exact mode sA _ eB (Nat.mul_pos (by omega) hp) (B + a) (eB + k) (by omega) ?_ ?_ ?_
+    · rw [show (eB + k - eB).toNat = k from by omega]
+    · refine ⟨?_, ?_, ?_⟩
+      · show B + a < 10^34; omega
+      · unfold eMin; omega
+      · unfold eMax; omega
+    · right; show 10^34 ≤ (B + a) * 10
+      have : (10:Nat)^34 = 10 * 10^33 := by decide
+      omega
+  · rw [if_neg r0]
+    have hk : 1 ≤ k := by
+      rcases Nat.eq_zero_or_pos k with h | h
+      · subst h; simp at hr; exact absurd hr r0
+      · exact h
+    obtain ⟨hd, hm⟩ := divmod_add (B + a) k r hr
+    have hN1 : 10 ^ (33 + k) ≤ (B + a) * 10^k + r := by
+      rw [Nat.pow_add]
+      have : 10^33 * 10^k ≤ (B + a) * 10^k := Nat.mul_le_mul_right _ (by omega)
+      omega
+    have hN2 : (B + a) * 10^k + r < 10 ^ (34 + k) := by
+      rw [Nat.pow_add]
+      have : (B + a + 1) * 10^k ≤ 10^34 * 10^k := Nat.mul_le_mul_right _ (by omega)
+      rw [Nat.add_mul, Nat.one_mul] at this
+      omega
+    rw [finish_long mode sA _ eB k hN1 hN2 hk he (by omega) (by rw [hm]; exact r0), hd, hm]
+    have hne : ¬ roundInt mode sA (B + a) r (10^k) = P34 := by
+      rcases ri_cases mode sA (B + a) r (10^k) with h | h <;> rw [h] <;> unfold P34 <;> omega
+    rw [if_neg hne, if_neg (by unfold eMax; omega)]
+
+/-- `B·10^k − (a·10^k + r)` with `B − a − 1` still above `10^33`: one rounding at `k` digits -/
+theorem finish_sub1 (mode : Mode) (sA : Bool) (k B a r : Nat) (eB : Int) (hB1 : 10^33 + a + 1 < B) (hB2 : B < 10^34)
+    (hr : r < 10 ^ k) (he : -6176 ≤ eB) (hx : eB + k ≤ 6111) :
+    finish mode sA (B * 10^k - (a * 10^k + r)) 1 eB eB =
+      if r = 0 then (.fin sA (B - a) (eB + k), 0)
+      else (.fin sA (roundInt mode sA (B - a - 1) (10^k - r) (10^k)) (eB + k), fInexact) := by
+  have hp : 0 < 10 ^ k := Nat.pow_pos (by decide)
+  have h34 : (10:Nat)^34 = 10 * 10^33 := by decide
+  by_cases r0 : r = 0
+  · subst r0
+    rw [if_pos rfl, Nat.add_zero, ← Nat.sub_mul]
+    refine finish_exact mode sA _ eB (Nat.mul_pos (by omega) hp) (B - a) (eB + k) (by omega) ?_ ?_ ?_
+    · rw [show (eB + k - eB).toNat = k from by omega]
+    · refine ⟨?_, ?_, ?_⟩
+      · show B - a < 10^34; omega
+      · unfold eMin; omega
+      · unfold eMax; omega
+    · right; show 10^34 ≤ (B - a) * 10; omega
+  · rw [if_neg r0]
+    have hk : 1 ≤ k := by
+      rcases Nat.eq_zero_or_pos k with h | h
+      · subst h; simp at hr; exact absurd hr r0
+      · exact h
+    have e : B * 10^k - (a * 10^k + r) = (B - a) * 10^k - r := by rw [Nat.sub_mul]; omega
+    obtain ⟨hd, hm⟩ := divmod_sub (B - a) k r (by omega) (by omega) hr
+    have hM : (B - a) * 10^k = (B - a - 1) * 10^k + 10^k := by
+      rw [← Nat.succ_mul]; congr 1; omega
+    have hN1 : 10 ^ (33 + k) ≤ (B - a) * 10^k - r := by
+      rw [Nat.pow_add, hM]
+      have : 10^33 * 10^k ≤ (B - a - 1) * 10^k := Nat.mul_le_mul_right _ (by omega)
+      omega
+    have hN2 : (B - a) * 10^k - r < 10 ^ (34 + k) := by
+      rw [Nat.pow_add]
+      have : (B - a) * 10^k ≤ 10^34 * 10^k := Nat.mul_le_mul_right _ (by omega)
+      omega
+    rw [e, finish_long mode sA _ eB k hN1 hN2 hk he (by omega) (by rw [hm]; omega), hd, hm]
+    have hne : ¬ roundInt mode sA (B - a - 1) (10^k - r) (10^k) = P34 := by
+      rcases ri_cases mode sA (B - a - 1) (10^k - r) (10^k) with h | h <;> rw [h] <;> unfold P34 <;> omega
+    rw [if_neg hne, if_neg (by unfold eMax; omega)]
+
+/-! ## 7. The rounding loop, one turn, one rounding
+
+`34 − q2 < delta < 34`: `x1 = delta + q2 − 34` digits of `C2` are rounded away by the block, `C1` is padded to 34 digits
+(`B`); here the part where `B ± (C2 rounded)` keeps 34 digits whichever way `C2` is rounded (no second rounding of a
+35-digit sum, no second turn after a cancellation). -/
+
+/-- the code, at word level: operands in the code's order (`a` has the larger exponent), `k = x1`, `B` the padded first
+coefficient, `cB = av·10^k + rv`, `T` the coefficient the model asks for -/
+theorem loop1_code (H : RoundBlockSpec) (x y a b : U128) (m : RoundingMode) (f : UInt32)
+    (hsp : ¬ ((x.w1 &&& c_MASK_SPECIAL == c_MASK_SPECIAL) || (y.w1 &&& c_MASK_SPECIAL == c_MASK_SPECIAL)) = true)
+    (hx0 : ¬ (uH x == 0 && uL x == 0) = true) (hy0 : ¬ (uH y == 0 && uL y == 0) = true)
+    (hab : Ordered x y a b)
+    (D D1 : UInt32) (THI TLO : UInt64) (D' D1' : UInt32) (THI' TLO' : UInt64)
+    (hTa : tblDD Dec.Gen.BID_NR_DIGITS (UInt64.ofInt (toI (nbOf (uH a) (uL a)))) = .ok ⟨D, THI, TLO, D1⟩)
+    (hTb : tblDD Dec.Gen.BID_NR_DIGITS (UInt64.ofInt (toI (nbOf (uH b) (uL b)))) = .ok ⟨D', THI', TLO', D1'⟩)
+    (sA sB : Bool) (cA cB QA QB EA EB k B av rv T : Nat) (pf : UInt32)
+    (has : (a.w1 &&& c_MASK_SIGN).toNat = if sA then 2^63 else 0) (hbs : (b.w1 &&& c_MASK_SIGN).toNat = if sB then 2^63 else 0)
+    (hac : (uH a).toNat * 2^64 + (uL a).toNat = cA) (hbc : (uH b).toNat * 2^64 + (uL b).toNat = cB)
+    (hae : (uE a).toNat = EA * 2^49) (hbe : (uE b).toNat = EB * 2^49)
+    (hqa : (qOf D D1 THI TLO (uH a) (uL a)).toInt = QA) (hqb : (qOf D' D1' THI' TLO' (uH b) (uL b)).toInt = QB)
+    (hQAd : ndigits cA = QA) (hcA0 : 0 < cA) (hQA1 : 1 ≤ QA) (hQA : QA ≤ 34) (hQB1 : 1 ≤ QB) (hQB : QB ≤ 34)
+    (hEA : EA < 12288) (hEle : EB ≤ EA) (hkE : (QA : Int) + EA - EB - 34 = k) (hk1 : 1 ≤ k) (hkQ : k + 1 ≤ QB)
+    (hBd : cA * 10 ^ (34 - QA) = B) (hB1 : 10^33 ≤ B) (hB2 : B < 10^34) (hbP : cB < 10^34)
+    (hcBe : cB / 10 ^ k = av ∧ cB % 10 ^ k = rv) (hrlt : rv < 10 ^ k)
+    (hdom : (sA = sB → B + av + 1 < 10^34) ∧ (¬ sA = sB → 10^33 + av + 1 < B))
+    (hT : T = if rv = 0 then (if sA = sB then B + av else B - av)
+      else (if sA = sB then roundInt (md m) sA (B + av) rv (10 ^ k) else roundInt (md m) sA (B - av - 1) (10 ^ k - rv) (10 ^ k)))
+    (hpf : pf = if rv = 0 then f else f ||| c_StatusFlags_BID_INEXACT_EXCEPTION)
+    (hT1 : 10^33 ≤ T ∧ T < 10^34) :
+    bid128_add x y m f = .ok (ofBits (encode (.fin sA T (((EB + k : Nat) : Int) - 6176))), pf) := by
+  have hEB : EB < 2^14 := by omega
+  have hEA' : EA < 2^14 := by omega
+  have hdl := delta_toInt _ _ (uE a) (uE b) _ _ _ _ hqa hqb hQA hQB hae hbe hEA' hEB
+  have h34 : c_P34.toInt = 34 := by decide
+  have hsig : (a.w1 &&& c_MASK_SIGN == b.w1 &&& c_MASK_SIGN) = (sA == sB) := (sign_eq_bools _ _ sA sB has hbs).1
+  have hd1 : ¬ decide (deltaOf (qOf D D1 THI TLO (uH a) (uL a)) (qOf D' D1' THI' TLO' (uH b) (uL b)) (uE a) (uE b) ≥ c_P34) = true := by
+    rw [i32_ge, hdl, h34]; simp only [decide_eq_true_eq]; omega
+  have hd2 : decide (deltaOf (qOf D D1 THI TLO (uH a) (uL a)) (qOf D' D1' THI' TLO' (uH b) (uL b)) (uE a) (uE b) ≥ 0) = true := by
+    rw [i32_ge, hdl, show (0 : Int32).toInt = 0 from by decide]; exact decide_eq_true (by omega)
+  have hq2s : (c_P34 - 1 - qOf D' D1' THI' TLO' (uH b) (uL b)).toInt = 33 - (QB : Int) := by
+    rw [Int32.toInt_sub, hqb, show (c_P34 - 1).toInt = 33 from by decide, bmod32 _ (by omega) (by omega)]
+  have hq2t : (c_P34 - qOf D' D1' THI' TLO' (uH b) (uL b)).toInt = 34 - (QB : Int) := by
+    rw [Int32.toInt_sub, hqb, h34, bmod32 _ (by omega) (by omega)]
+  have hd3 : ¬ decide (deltaOf (qOf D D1 THI TLO (uH a) (uL a)) (qOf D' D1' THI' TLO' (uH b) (uL b)) (uE a) (uE b) ≤ c_P34 - 1 - qOf D' D1' THI' TLO' (uH b) (uL b)) = true := by
+    rw [i32_le_lit, hdl, hq2s]; simp only [decide_eq_true_eq]; omega
+  have hd4 : ¬ (deltaOf (qOf D D1 THI TLO (uH a) (uL a)) (qOf D' D1' THI' TLO' (uH b) (uL b)) (uE a) (uE b) == c_P34 - qOf D' D1' THI' TLO' (uH b) (uL b)) = true := by
+    rw [beq_i32', hdl, hq2t]; simp only [decide_eq_true_eq]; omega
+  add_front
+  take_neg
+  · rw [hq1, hq2, hea, heb]; exact hd1
+  take_pos
+  · rw [hq1, hq2, hea, heb]; exact hd2
+  take_neg
+  · rw [hq1, hq2, hea, heb]; exact hd3
+  take_neg
+  · rw [hq1, hq2, hea, heb]; exact hd4
+  rw [← hq1] at hqa
+  rw [← hq2] at hqb
+  rw [← hal, ← hah] at hac
+  rw [← hbl, ← hbh] at hbc
+  rw [← hsa] at has
+  rw [← hsb] at hbs
+  rw [← hsa, ← hsb] at hsig
+  rw [← hea] at hae
+  rw [← heb] at hbe
+  rw [← hq1, ← hq2, ← hea, ← heb] at hdl
+  clear hd1 hd2 hd3 hd4 hTa hTb hsp hx0 hy0 hab hq2s hq2t
+  clear hq1 hq2 hal hah hbl hbh hsa hsb hea heb
+  have htt : true = true := rfl
+  have hft : ¬ false = true := Bool.false_ne_true
+  extract_lets -underBinder +onlyGivenNames x1 brk0
+  have hx1 : x1.toInt = (k : Int) := by
+    show (deltaOf q1 q2 ea eb + q2 - c_P34).toInt = _
+    rw [Int32.toInt_sub, Int32.toInt_add, hdl, hqb, h34, bmod32 ((QA : Int) + EA - QB - EB + QB) (by omega) (by omega),
+      bmod32 _ (by omega) (by omega)]
+    omega
+  refine Eq.trans (loop_first 4095 _ (fun _ _ _ => rfl) _ _) ?_
+  head_zeta_vals
+  clean_proj
+  klet
+  extract_lets -underBinder +onlyGivenNames J
+  have hscale : (deltaOf q1 q2 ea eb - q1 + q2 - x1).toInt = ((34 - QA : Nat) : Int) := by
+    rw [Int32.toInt_sub, Int32.toInt_add, Int32.toInt_sub, hdl, hqa, hqb, hx1,
+      bmod32 ((QA : Int) + EA - QB - EB - QA) (by omega) (by omega),
+      bmod32 ((QA : Int) + EA - QB - EB - QA + QB) (by omega) (by omega), bmod32 _ (by omega) (by omega)]
+    omega
+  generalize hscd : deltaOf q1 q2 ea eb - q1 + q2 - x1 = sc at hscale ⊢
+  obtain ⟨P, hP, hK⟩ := scaleK_ok' q1 sc ah al cA QA (34 - QA) hac hqa hscale hQAd.symm hcA0 (by omega)
+  kframe (refine Eq.trans (show _ = scaleK q1 sc ah al (fun C1 => J () C1) from by unfold scaleK; rfl) ?_)
+  rw [hK]
+  have hPB : P.w1.toNat * 2^64 + P.w0.toNat = B := words_of_toNat' P _ (by rw [hP, hBd])
+  clear hK hP
+  kframe (show J () P = _)
+  unfold J
+  head_zeta_vals
+  klet
+  extract_lets -underBinder +onlyGivenNames JT
+  kname K hK
+  obtain ⟨hz, hnz⟩ := sign_bools sa sA has
+  have h1i : (1 : Int32).toInt = 1 := by decide
+  have h0i : (0 : Int32).toInt = 0 := by decide
+  have hEk : EB + k < 12288 := by omega
+  -- the text after the loop: the correction by the rounding mode, the result
+  have keyPost : ∀ (resv : U128) (tsv t64 tA tB : UInt64) (sc xv iv sv : Int32) (tI : Bool) (C1v C2v hfv : U128)
+      (Qv Rv : U256) (lte gte ltm gtm spv : Bool) (yev : UInt64) (Q0 : Nat),
+      C1v.w1.toNat * 2^64 + C1v.w0.toNat = Q0 → yev.toNat = (EB + k) * 2^49 → tI = decide (rv ≠ 0) →
+      (m = .NearestEven → Q0 = T) →
+      (m ≠ .NearestEven → upB (!sA) sA m ltm gte = true → Q0 + 1 = T) →
+      (m ≠ .NearestEven → upB (!sA) sA m ltm gte = false → dnB (!sA) sA m lte gtm = true → Q0 - 1 = T) →
+      (m ≠ .NearestEven → upB (!sA) sA m ltm gte = false → dnB (!sA) sA m lte gtm = false → Q0 = T) →
+      K (ForInStep.done (none, f, resv, sa, tsv, yev, t64, tA, tB, sc, xv, iv, sv, tI, C1v, C2v, hfv, Qv, Rv, lte, gte, ltm, gtm,
+        spv, true)) = .ok (ofBits (encode (.fin sA T (((EB + k : Nat) : Int) - 6176))), pf) := by
+    intro resv tsv t64 tA tB sc xv iv sv tI C1v C2v hfv Qv Rv lte gte ltm gtm spv yev Q0 hv hyx htI aRNE aUp aDn aSame
+    subst hK
+    head_step
+    take_neg
+    · exact (by simp : ¬ (!true) = true)
+    head_step
+    clean_proj
+    have hEfin : EB + k < 2^14 := by omega
+    have hpfI : (if tI = true then f ||| c_StatusFlags_BID_INEXACT_EXCEPTION else f) = pf := by
+      rw [htI, hpf]
+      by_cases r0 : rv = 0
+      · rw [if_pos r0, if_neg (by simp [r0])]
+      · rw [if_neg r0, if_pos (by simpa using r0)]
+    have hnov : ¬ (yev == c_EXP_MAX_P1) = true := by
+      intro h
+      have := congrArg UInt64.toNat (beq_iff_eq.1 h)
+      rw [hyx, show c_EXP_MAX_P1.toNat = 12288 * 2^49 from rfl] at this
+      omega
+    have h128 : (10:Nat)^34 + 1 < 2^128 := by decide
+    have h3334 : (10:Nat)^33 < 10^34 := by decide
+    by_cases hm : (m != RoundingMode.NearestEven) = true
+    · have hmne : m ≠ .NearestEven := by simpa using hm
+      take_pos
+      · exact hm
+      head_step
+      by_cases hup : upB (!sA) sA m ltm gte = true
+      · take_pos
+        · exact (show upB (sa == 0) (sa != 0) m ltm gte = true by rw [hz, hnz]; exact hup)
+        have hval := aUp hmne hup
+        have hv' := inc_words C1v.w1 C1v.w0 (by rw [hv]; omega)
+        rw [hv, hval] at hv'
+        head_step
+        sym_exec
+        gen_args _ hiC
+        head_step
+        take_neg
+        · rw [hhiC, eq_words, hv', show (542101086242752 : UInt64).toNat * 2^64 + (4003012203950112768 : UInt64).toNat = 10^34 from by decide]
+          simp only [decide_eq_true_eq]
+          omega
+        head_step
+        take_neg
+        · exact hnov
+        sym_exec!
+        rw [ite_pair, hhiC, hpfI]
+        exact asm_ok sa yev _ _ pf sA T _ has hyx hEfin hv' hT1.2
+      · take_neg
+        · exact (show ¬ upB (sa == 0) (sa != 0) m ltm gte = true by rw [hz, hnz]; exact hup)
+        have hup' : upB (!sA) sA m ltm gte = false := by simpa using hup
+        head_step
+        by_cases hdn : dnB (!sA) sA m lte gtm = true
+        · take_pos
+          · exact (show dnB (sa == 0) (sa != 0) m lte gtm = true by rw [hz, hnz]; exact hdn)
+          have hval := aDn hmne hup' hdn
+          have hv' := dec_words C1v.w1 C1v.w0 (by rw [hv]; omega)
+          rw [hv, hval] at hv'
+          head_step
+          sym_exec
+          gen_args _ hiC
+          head_step
+          take_neg
+          · rw [hhiC, eq_words, hv', show (54210108624275 : UInt64).toNat * 2^64 + (4089650035136921599 : UInt64).toNat = 10^33 - 1 from by decide]
+            simp only [decide_eq_true_eq]
+            omega
+          head_step
+          take_neg
+          · exact hnov
+          sym_exec!
+          rw [ite_pair, hhiC, hpfI]
+          exact asm_ok sa yev _ _ pf sA T _ has hyx hEfin hv' hT1.2
+        · take_neg
+          · exact (show ¬ dnB (sa == 0) (sa != 0) m lte gtm = true by rw [hz, hnz]; exact hdn)
+          have hdn' : dnB (!sA) sA m lte gtm = false := by simpa using hdn
+          have hval := aSame hmne hup' hdn'
+          head_step
+          take_neg
+          · exact hnov
+          sym_exec!
+          rw [ite_pair, hpfI]
+          exact asm_ok sa yev _ _ pf sA T _ has hyx hEfin (by rw [hv, hval]) hT1.2
+    · have hme : m = .NearestEven := by
+        cases m <;> first | rfl | exact absurd rfl hm
+      take_neg
+      · exact hm
+      have hval := aRNE hme
+      sym_exec!
+      rw [ite_pair, hpfI]
+      exact asm_ok sa yev _ _ pf sA T _ has hyx hEfin (by rw [hv, hval]) hT1.2
+  -- the end of the turn and the text after the loop
+  have keyT : ∀ (tA tB : UInt64) (shv : Int32) (tI : Bool) (C2v hfv : U128) (R : U256) (lte gte ltm gtm : Bool) (Rf : Nat),
+      R.w3.toNat * 2^64 + R.w2.toNat = Rf → Rf ≤ av + 1 → tI = decide (rv ≠ 0) →
+      (m = .NearestEven → (if sA = sB then B + Rf else B - Rf) = T) →
+      (m ≠ .NearestEven → upB (!sA) sA m ltm gte = true → (if sA = sB then B + Rf else B - Rf) + 1 = T) →
+      (m ≠ .NearestEven → upB (!sA) sA m ltm gte = false → dnB (!sA) sA m lte gtm = true → (if sA = sB then B + Rf else B - Rf) - 1 = T) →
+      (m ≠ .NearestEven → upB (!sA) sA m ltm gte = false → dnB (!sA) sA m lte gtm = false → (if sA = sB then B + Rf else B - Rf) = T) →
+      (JT () tA tB shv tI C2v hfv R lte gte ltm gtm >>= K) =
+        .ok (ofBits (encode (.fin sA T (((EB + k : Nat) : Int) - 6176))), pf) := by
+    intro tA tB shv tI C2v hfv R lte gte ltm gtm Rf hR hRf htI aRNE aUp aDn aSame
+    unfold JT
+    have h128 : (10:Nat)^34 + 10^34 < 2^128 := by decide
+    by_cases hs : sA = sB
+    · have hsS : (sa == sb) = true := by rw [hsig, hs]; simp
+      have hdS := hdom.1 hs
+      rw [if_pos hs] at aRNE aUp aDn aSame
+      kframe take_pos
+      · exact hsS
+      kframe sym_exec
+      kgen_args _ C1s
+      replace hC1s : C1s = if decide (P.w0 + R.w2 < P.w0) = true then ⟨P.w0 + R.w2, P.w1 + R.w3 + 1⟩
+          else ⟨P.w0 + R.w2, P.w1 + R.w3⟩ := hC1s
+      have hv : C1s.w1.toNat * 2^64 + C1s.w0.toNat = B + Rf := by
+        have h := sum_words P.w1 P.w0 R.w3 R.w2 (by rw [hPB, hR]; omega)
+        unfold sumHi at h
+        rw [hPB, hR] at h
+        rw [hC1s]
+        by_cases c : decide (P.w0 + R.w2 < P.w0) = true
+        · rw [if_pos c] at h ⊢; exact h
+        · rw [if_neg c] at h ⊢; exact h
+      clear hC1s
+      kframe head_step
+      kframe take_neg
+      · show ¬ bigTest C1s.w1 C1s.w0 = true
+        rw [bigTest_eq, hv]; simp only [decide_eq_true_eq]; omega
+      kframe head_step
+      have hyx := exp_plus eb x1 EB k hbe hx1 (by omega)
+      kframe take_neg
+      · intro h
+        rw [Bool.and_eq_true, beq_iff_eq] at h
+        have := congrArg UInt64.toNat h.1
+        rw [hyx, show c_EXP_MAX_P1.toNat = 12288 * 2^49 from rfl] at this
+        omega
+      kframe head_step
+      sym_exec
+      exact keyPost _ _ _ _ _ _ _ _ _ tI C1s _ _ _ _ lte gte ltm gtm _ _ (B + Rf) hv hyx htI aRNE aUp aDn aSame
+    · have hsS : ¬ (sa == sb) = true := by rw [hsig]; simpa using hs
+      have hdS := hdom.2 hs
+      rw [if_neg hs] at aRNE aUp aDn aSame
+      kframe take_neg
+      · exact hsS
+      kframe sym_exec
+      kgen_args _ C1s
+      replace hC1s : C1s = if decide (P.w0 - R.w2 > P.w0) = true then ⟨P.w0 - R.w2, P.w1 - R.w3 - 1⟩
+          else ⟨P.w0 - R.w2, P.w1 - R.w3⟩ := hC1s
+      have hv : C1s.w1.toNat * 2^64 + C1s.w0.toNat = B - Rf := by
+        have h := sub128_words P.w1 P.w0 R.w3 R.w2
+        rw [hPB, hR, show (B + 2^128 - Rf) % 2^128 = B - Rf from by omega] at h
+        rw [hC1s]
+        by_cases c : decide (P.w0 - R.w2 > P.w0) = true
+        · rw [if_pos c] at h ⊢; exact h
+        · rw [if_neg c] at h ⊢; exact h
+      clear hC1s
+      kframe head_step
+      kframe take_neg
+      · have h0 := C1s.w0.toNat_lt
+        have : C1s.w1.toNat < 2^63 := by
+          have : (10:Nat)^34 < 2^63 * 2^64 := by decide
+          omega
+        rw [decide_eq_true_eq, ge_iff_le, UInt64.le_iff_toNat_le, show (0x8000000000000000 : UInt64).toNat = 2^63 from rfl]
+        omega
+      kframe head_step
+      have hBR : 10^33 < B - Rf := by omega
+      kframe take_neg
+      · rw [Dec.C13GenNoncomp.lt128, eq_words, hv, show (54210108624275 : UInt64).toNat * 2^64 + (4089650035136921600 : UInt64).toNat = 10^33 from by decide]
+        simp only [Bool.or_eq_true, Bool.and_eq_true, decide_eq_true_eq]
+        rintro (h | ⟨h, -⟩) <;> omega
+      kframe head_step
+      kframe take_neg
+      · rw [eq_words, hv, show (542101086242752 : UInt64).toNat * 2^64 + (4003012203950112768 : UInt64).toNat = 10^34 from by decide]
+        simp only [decide_eq_true_eq]
+        omega
+      kframe head_step
+      have hyx := exp_plus eb x1 EB k hbe hx1 (by omega)
+      kframe take_pos
+      · rw [i32_ge, hx1, h1i]; exact decide_eq_true (by omega)
+      kframe head_step
+      sym_exec
+      exact keyPost _ _ _ _ _ _ _ _ _ tI C1s _ _ _ _ lte gte ltm gtm _ _ (B - Rf) hv hyx htI aRNE aUp aDn aSame
+  -- `QB ≥ 2`: the second coefficient is rounded to its leading digit by the reciprocal block
+  have hxi : (x1 - 1).toInt = ((k - 1 : Nat) : Int) := by
+    rw [Int32.toInt_sub, hx1, h1i, bmod32 _ (by omega) (by omega)]; omega
+  have hcB34 : bh.toNat * 2^64 + bl.toNat < 10^34 := by rw [hbc]; exact hbP
+  obtain ⟨m64, m128, KT, tr, mask0, oh0, sh0, hM64, hM128, hKT, hTR, hMK, hSH, hOH, hspec⟩ := H bh bl (k - 1) (by omega) hcB34
+  obtain ⟨mask, sh, oh, hMK', hSH', hOH'⟩ := tabs_get (k - 1) (by omega)
+  have e3 : 3 ≤ k - 1 → mask0 = mask ∧ sh0 = sh ∧ oh0 = oh := fun h3 =>
+    ⟨Except.ok.inj ((hMK h3).symm.trans hMK'), Except.ok.inj ((hSH h3).symm.trans hSH'), Except.ok.inj ((hOH h3).symm.trans hOH')⟩
+  rw [← idx_i32 (x1 - 1) (k - 1) hxi] at hM64 hKT hTR hMK' hSH' hOH'
+  rw [hbc, show k - 1 + 1 = k from by omega, hcBe.1, hcBe.2] at hspec
+  have hD := pow10_even k hk1
+  generalize hh : 10 ^ k / 2 = h at hspec hD
+  clear hMK hSH hOH
+  have hge : decide (x1 - 1 ≥ 0) = true := by
+    rw [i32_ge, hxi, h0i]; exact decide_eq_true (by omega)
+  kframe take_pos
+  · exact hge
+  have hspec' : ∀ R : U256, R.toNat' = (rbC2 (k - 1) bh bl m64 m128).toNat' * KT.toNat' →
+      ((rbQ (k - 1) R sh).2.toNat * 2^64 + (rbQ (k - 1) R sh).1.toNat = if rv < h then av else av + 1) ∧
+      rbGtHalf (k - 1) R (rbHf (k - 1) R mask) oh = decide (rv < h) ∧
+      (rv < h → rbGtT (k - 1) R (rbHf (k - 1) R mask) oh tr = decide (0 < rv)) ∧
+      rbMid R (rbHf (k - 1) R mask) tr = decide (rv = h) := by
+    by_cases h3 : 3 ≤ k - 1
+    · obtain ⟨rfl, rfl, rfl⟩ := e3 h3; exact hspec
+    · intro R hR
+      have hs := hspec R hR
+      have e1 : rbQ (k - 1) R sh0 = rbQ (k - 1) R sh := by unfold rbQ; rw [if_neg h3, if_neg h3]
+      have e2 : rbHf (k - 1) R mask0 = rbHf (k - 1) R mask := by
+        unfold rbHf; rw [if_pos (show k - 1 ≤ 2 by omega), if_pos (show k - 1 ≤ 2 by omega)]
+      have e4 : ∀ hfv, rbGtHalf (k - 1) R hfv oh0 = rbGtHalf (k - 1) R hfv oh := by
+        intro hfv; unfold rbGtHalf; rw [if_pos (show k - 1 ≤ 2 by omega), if_pos (show k - 1 ≤ 2 by omega)]
+      have e5 : ∀ hfv, rbGtT (k - 1) R hfv oh0 tr = rbGtT (k - 1) R hfv oh tr := by
+        intro hfv; unfold rbGtT; rw [if_pos (show k - 1 ≤ 2 by omega), if_pos (show k - 1 ≤ 2 by omega)]
+      rw [e1, e2, e4, e5] at hs
+      exact hs
+  clear hspec e3
+  rw [← hD] at hT hrlt
+  have c2 : decide (x1 - 1 ≤ 2) = decide (k - 1 ≤ 2) := by
+    rw [i32_le_lit, hxi, show (2 : Int32).toInt = 2 from by decide, decide_eq_decide]; omega
+  have c21 : decide (x1 - 1 ≤ 21) = decide (k - 1 ≤ 21) := by
+    rw [i32_le_lit, hxi, show (21 : Int32).toInt = 21 from by decide, decide_eq_decide]; omega
+  have c18 : decide (x1 - 1 ≤ 18) = decide (k - 1 ≤ 18) := by
+    rw [i32_le_lit, hxi, show (18 : Int32).toInt = 18 from by decide, decide_eq_decide]; omega
+  have c3 : decide (x1 - 1 ≥ 3) = decide (3 ≤ k - 1) := by
+    rw [i32_ge, hxi, show (3 : Int32).toInt = 3 from by decide, decide_eq_decide]; omega
+  klet
+  extract_lets -underBinder +onlyGivenNames c2a c2b J1
+  have key1 : ∀ C2' : U128, C2' = rbC2 (k - 1) bh bl m64 m128 →
+      (J1 () C2' >>= K) = .ok (ofBits (encode (.fin sA T (((EB + k : Nat) : Int) - 6176))), pf) := by
+    intro C2' hC2'
+    obtain ⟨RR, hMul, hRR⟩ := C01GenArith.gen_mul_128x128_to_256 C2' KT
+    rw [hC2'] at hRR
+    obtain ⟨sQ, sG, sT, sM⟩ := hspec' RR hRR
+    clear hspec' hRR
+    unfold J1
+    kframe head_step
+    kframe sym_exec
+    kgen_args _ hf
+    kframe head_step
+    kframe sym_exec
+    kgen_args _ shv R2
+    have eR0 : R2.w0 = RR.w0 := by
+      rw [hR2]; split
+      · split <;> rfl
+      · rfl
+    have eR1 : R2.w1 = RR.w1 := by
+      rw [hR2]; split
+      · split <;> rfl
+      · rfl
+    have eQ : (R2.w2, R2.w3) = rbQ (k - 1) RR sh := by
+      rw [hR2, c3]; unfold rbQ
+      by_cases h3 : 3 ≤ k - 1
+      · rw [if_pos (decide_eq_true h3), if_pos h3]
+        by_cases h64 : decide (sh < 64) = true
+        · rw [if_pos h64, if_pos h64]
+        · rw [if_neg h64, if_neg h64]
+      · rw [if_neg (by simpa using h3), if_neg h3]
+    have eHf : hf = rbHf (k - 1) RR mask := by
+      rw [hhf, c2, c21]; unfold rbHf
+      by_cases h2 : k - 1 ≤ 2
+      · rw [if_pos (decide_eq_true h2), if_pos h2]
+      · rw [if_neg (by simpa using h2), if_neg h2]
+        by_cases h21 : k - 1 ≤ 21
+        · rw [if_pos (decide_eq_true h21), if_pos h21]
+        · rw [if_neg (by simpa using h21), if_neg h21]
+    rw [← eHf] at sG sT sM
+    have eQ2 : R2.w3.toNat * 2^64 + R2.w2.toNat = if rv < h then av else av + 1 := by
+      rw [← sQ, ← eQ]
+    clear hhf hR2 hshv sQ
+    kframe head_beta
+    klet
+    extract_lets -underBinder +onlyGivenNames J3
+    kframe take_neg
+    · exact hft
+    unfold J3
+    kframe head_beta
+    klet
+    extract_lets -underBinder +onlyGivenNames J2
+    have hh1 : 1 ≤ h := by
+      have : 0 < 10 ^ k := Nat.pow_pos (by decide)
+      omega
+    have key2 : ∀ (tA tB : UInt64) (tI ltm0 gtm0 : Bool), tI = decide (rv ≠ 0) →
+        ltm0 = (if (sa == sb) = true then decide (0 < rv ∧ rv < h) else decide (¬ rv < h)) →
+        gtm0 = (if (sa == sb) = true then decide (¬ rv < h) else decide (0 < rv ∧ rv < h)) →
+        (J2 () tA tB tI ltm0 gtm0 >>= K) = .ok (ofBits (encode (.fin sA T (((EB + k : Nat) : Int) - 6176))), pf) := by
+      intro tA tB tI ltm0 gtm0 htI hltm0 hgtm0
+      unfold J2
+      kframe head_step
+      kframe sym_exec
+      unfold rbMid at sM
+      have hparG : ¬ rv < h → (P.w0 + R2.w2 &&& 1 == 1) = decide ((B + av + 1) % 2 = 1) := by
+        intro hnlt
+        have e2 := eQ2
+        rw [if_neg hnlt] at e2
+        rw [(parity_word 0 (P.w0 + R2.w2)).1, decide_eq_decide]
+        show (0 * 2^64 + (P.w0 + R2.w2).toNat) % 2 = 1 ↔ _
+        rw [UInt64.toNat_add]
+        omega
+      by_cases hs : sA = sB
+      · have hsS : (sa == sb) = true := by rw [hsig, hs]; simp
+        rw [if_pos hsS] at hltm0 hgtm0
+        have hT' : T = if rv = 0 then B + av else roundInt (md m) sA (B + av) rv (2 * h) := by
+          rw [hT, if_pos hs, if_pos hs]
+        have keyTs : ∀ (R : U256) (lte gte ltm gtm : Bool) (Rf : Nat), R.w3.toNat * 2^64 + R.w2.toNat = Rf → Rf ≤ av + 1 →
+            lte = decide (rv = h ∧ (B + av + 1) % 2 = 0) → gte = decide (rv = h ∧ (B + av + 1) % 2 = 1) →
+            ltm = decide (0 < rv ∧ rv < h) → gtm = decide (h < rv) →
+            Rf = (if rv < h then av else if rv = h ∧ (B + av + 1) % 2 = 1 then av else av + 1) →
+            (JT () tA tB shv tI C2' hf R lte gte ltm gtm >>= K) =
+              .ok (ofBits (encode (.fin sA T (((EB + k : Nat) : Int) - 6176))), pf) := by
+          intro R lte gte ltm gtm Rf hR hRf hlte hgte hltm hgtm hRfe
+          obtain ⟨a1, a2, a3, a4⟩ := add_adjust m sA B av rv h hrlt lte gte ltm gtm Rf hlte hgte hltm hgtm hRfe T hT'
+          exact keyT tA tB shv tI C2' hf R lte gte ltm gtm Rf hR hRf htI (by rw [if_pos hs]; exact a1)
+            (by rw [if_pos hs]; exact a2) (by rw [if_pos hs]; exact a3) (by rw [if_pos hs]; exact a4)
+        khead_cases hM
+        · kframe take_pos
+          · exact hM
+          rw [mid_glue, eR1, eR0, sM, decide_eq_true_eq] at hM
+          have hnlt : ¬ rv < h := by omega
+          have hpar := hparG hnlt
+          rw [if_neg hnlt] at eQ2
+          by_cases hodd : (B + av + 1) % 2 = 1
+          · kframe take_pos
+            · rw [hpar]; exact decide_eq_true hodd
+            kframe sym_exec
+            kgen_args _ Rd
+            replace hRd : Rd = if (R2.w2 - 1 == 18446744073709551615) = true then ⟨R2.w0, R2.w1, R2.w2 - 1, R2.w3 - 1⟩
+                else ⟨R2.w0, R2.w1, R2.w2 - 1, R2.w3⟩ := hRd
+            have hRdv : Rd.w3.toNat * 2^64 + Rd.w2.toNat = av := by
+              have hd := dec_words R2.w3 R2.w2 (by rw [eQ2]; omega)
+              rw [eQ2, Nat.add_sub_cancel] at hd
+              rw [hRd]
+              by_cases c : (R2.w2 - 1 == 18446744073709551615) = true
+              · rw [if_pos c] at hd ⊢; exact hd
+              · rw [if_neg c] at hd ⊢; exact hd
+            kframe head_step
+            kframe take_pos
+            · exact hsS
+            kframe head_zeta
+            exact keyTs Rd false true false false av hRdv (by omega)
+              (decide_eq_false (fun hh => by have := hh.2; omega)).symm (decide_eq_true ⟨hM, hodd⟩).symm
+              (decide_eq_false (by omega)).symm (decide_eq_false (by omega)).symm
+              (by rw [if_neg hnlt, if_pos ⟨hM, hodd⟩])
+          · kframe take_neg
+            · rw [hpar]; simpa using hodd
+            kframe sym_exec
+            kframe head_zeta
+            exact keyTs R2 _ _ false false (av + 1) eQ2 (by omega)
+              (by rw [if_pos hsS]; exact (decide_eq_true ⟨hM, by omega⟩).symm)
+              (by rw [if_pos hsS]; exact (decide_eq_false (fun hh => hodd hh.2)).symm)
+              (decide_eq_false (by omega)).symm (decide_eq_false (by omega)).symm
+              (by rw [if_neg hnlt, if_neg (fun hh => hodd hh.2)])
+        · kframe take_neg
+          · exact hM
+          rw [mid_glue, eR1, eR0, sM, decide_eq_true_eq] at hM
+          exact keyTs R2 false false ltm0 gtm0 _ eQ2 (by split <;> omega)
+            (decide_eq_false (fun hh => hM hh.1)).symm (decide_eq_false (fun hh => hM hh.1)).symm
+            hltm0 (by rw [hgtm0, decide_eq_decide]; omega)
+            (by by_cases c : rv < h
+                · rw [if_pos c, if_pos c]
+                · rw [if_neg c, if_neg c, if_neg (fun hh => hM hh.1)])
+      · have hsS : ¬ (sa == sb) = true := by rw [hsig]; simpa using hs
+        rw [if_neg hsS] at hltm0 hgtm0
+        have hdS := hdom.2 hs
+        have hT' : T = if rv = 0 then B - av else roundInt (md m) sA (B - av - 1) (2 * h - rv) (2 * h) := by
+          rw [hT, if_neg hs, if_neg hs]
+        have keyTs : ∀ (R : U256) (lte gte ltm gtm : Bool) (Rf : Nat), R.w3.toNat * 2^64 + R.w2.toNat = Rf → Rf ≤ av + 1 →
+            lte = decide (rv = h ∧ (B + av + 1) % 2 = 1) → gte = decide (rv = h ∧ (B + av + 1) % 2 = 0) →
+            ltm = decide (h < rv) → gtm = decide (0 < rv ∧ rv < h) →
+            Rf = (if rv < h then av else if rv = h ∧ (B + av + 1) % 2 = 1 then av else av + 1) →
+            (JT () tA tB shv tI C2' hf R lte gte ltm gtm >>= K) =
+              .ok (ofBits (encode (.fin sA T (((EB + k : Nat) : Int) - 6176))), pf) := by
+          intro R lte gte ltm gtm Rf hR hRf hlte hgte hltm hgtm hRfe
+          obtain ⟨a1, a2, a3, a4⟩ := sub_adjust m sA B av rv h (by omega) hrlt lte gte ltm gtm Rf hlte hgte hltm hgtm hRfe T hT'
+          exact keyT tA tB shv tI C2' hf R lte gte ltm gtm Rf hR hRf htI (by rw [if_neg hs]; exact a1)
+            (by rw [if_neg hs]; exact a2) (by rw [if_neg hs]; exact a3) (by rw [if_neg hs]; exact a4)
+        khead_cases hM
+        · kframe take_pos
+          · exact hM
+          rw [mid_glue, eR1, eR0, sM, decide_eq_true_eq] at hM
+          have hnlt : ¬ rv < h := by omega
+          have hpar := hparG hnlt
+          rw [if_neg hnlt] at eQ2
+          by_cases hodd : (B + av + 1) % 2 = 1
+          · kframe take_pos
+            · rw [hpar]; exact decide_eq_true hodd
+            kframe sym_exec
+            kgen_args _ Rd
+            replace hRd : Rd = if (R2.w2 - 1 == 18446744073709551615) = true then ⟨R2.w0, R2.w1, R2.w2 - 1, R2.w3 - 1⟩
+                else ⟨R2.w0, R2.w1, R2.w2 - 1, R2.w3⟩ := hRd
+            have hRdv : Rd.w3.toNat * 2^64 + Rd.w2.toNat = av := by
+              have hd := dec_words R2.w3 R2.w2 (by rw [eQ2]; omega)
+              rw [eQ2, Nat.add_sub_cancel] at hd
+              rw [hRd]
+              by_cases c : (R2.w2 - 1 == 18446744073709551615) = true
+              · rw [if_pos c] at hd ⊢; exact hd
+              · rw [if_neg c] at hd ⊢; exact hd
+            kframe head_step
+            kframe take_neg
+            · exact hsS
+            kframe head_zeta
+            exact keyTs Rd true false false false av hRdv (by omega)
+              (decide_eq_true ⟨hM, hodd⟩).symm (decide_eq_false (fun hh => by have := hh.2; omega)).symm
+              (decide_eq_false (by omega)).symm (decide_eq_false (by omega)).symm
+              (by rw [if_neg hnlt, if_pos ⟨hM, hodd⟩])
+          · kframe take_neg
+            · rw [hpar]; simpa using hodd
+            kframe sym_exec
+            kframe head_zeta
+            exact keyTs R2 _ _ false false (av + 1) eQ2 (by omega)
+              (by rw [if_neg hsS]; exact (decide_eq_false (fun hh => hodd hh.2)).symm)
+              (by rw [if_neg hsS]; exact (decide_eq_true ⟨hM, by omega⟩).symm)
+              (decide_eq_false (by omega)).symm (decide_eq_false (by omega)).symm
+              (by rw [if_neg hnlt, if_neg (fun hh => hodd hh.2)])
+        · kframe take_neg
+          · exact hM
+          rw [mid_glue, eR1, eR0, sM, decide_eq_true_eq] at hM
+          exact keyTs R2 false false ltm0 gtm0 _ eQ2 (by split <;> omega)
+            (decide_eq_false (fun hh => hM hh.1)).symm (decide_eq_false (fun hh => hM hh.1)).symm
+            (by rw [hltm0, decide_eq_decide]; omega) hgtm0
+            (by by_cases c : rv < h
+                · rw [if_pos c, if_pos c]
+                · rw [if_neg c, if_neg c, if_neg (fun hh => hM hh.1)])
+    have leafG : ∀ (Texp : Bool) (tA tB : UInt64), rv < h → Texp = decide (0 < rv) →
+        ((if Texp = true then
+            (if (sa == sb) = true then J2 () tA tB true true false else J2 () tA tB true false true)
+          else J2 () tA tB false false false) >>= K)
+          = .ok (ofBits (encode (.fin sA T (((EB + k : Nat) : Int) - 6176))), pf) := by
+      intro Texp tA tB hlt hTe
+      by_cases r0 : 0 < rv
+      · rw [hTe, if_pos (decide_eq_true r0)]
+        by_cases hS : (sa == sb) = true
+        · rw [if_pos hS]
+          exact key2 tA tB true true false (decide_eq_true (by omega)).symm
+            (by rw [if_pos hS]; exact (decide_eq_true ⟨r0, hlt⟩).symm)
+            (by rw [if_pos hS]; exact (decide_eq_false (not_not.2 hlt)).symm)
+        · rw [if_neg hS]
+          exact key2 tA tB true false true (decide_eq_true (by omega)).symm
+            (by rw [if_neg hS]; exact (decide_eq_false (not_not.2 hlt)).symm)
+            (by rw [if_neg hS]; exact (decide_eq_true ⟨r0, hlt⟩).symm)
+      · rw [hTe, if_neg (by simpa using r0)]
+        exact key2 tA tB false false false (decide_eq_false (by omega)).symm
+          (by split
+              · exact (decide_eq_false (fun hh => r0 hh.1)).symm
+              · exact (decide_eq_false (not_not.2 hlt)).symm)
+          (by split
+              · exact (decide_eq_false (not_not.2 hlt)).symm
+              · exact (decide_eq_false (fun hh => r0 hh.1)).symm)
+    have leafL : ∀ (tA tB : UInt64), ¬ rv < h →
+        ((if (sa == sb) = true then J2 () tA tB true false true else J2 () tA tB true true false) >>= K)
+          = .ok (ofBits (encode (.fin sA T (((EB + k : Nat) : Int) - 6176))), pf) := by
+      intro tA tB hlt
+      by_cases hS : (sa == sb) = true
+      · rw [if_pos hS]
+        exact key2 tA tB true false true (decide_eq_true (by omega)).symm
+          (by rw [if_pos hS]; exact (decide_eq_false (fun hh => hlt hh.2)).symm)
+          (by rw [if_pos hS]; exact (decide_eq_true hlt).symm)
+      · rw [if_neg hS]
+        exact key2 tA tB true true false (decide_eq_true (by omega)).symm
+          (by rw [if_neg hS]; exact (decide_eq_true hlt).symm)
+          (by rw [if_neg hS]; exact (decide_eq_false (fun hh => hlt hh.2)).symm)
+    clear key2
+    unfold rbGtHalf at sG
+    unfold rbGtT at sT
+    by_cases h2 : k - 1 ≤ 2
+    · have hr1 : decide (x1 - 1 ≤ 2) = true := by rw [c2]; exact decide_eq_true h2
+      rw [if_pos h2] at sG sT
+      rw [← eR1, ← eR0] at sG sT
+      kframe take_pos
+      · exact hr1
+      khead_cases hG
+      · kframe take_pos
+        · exact hG
+        rw [sG, decide_eq_true_eq] at hG
+        have sT' := sT hG
+        kframe sym_exec
+        refine leafG _ (R2.w1 - 9223372036854775808) default hG ?_
+        rw [or_glue]; exact sT'
+      · kframe take_neg
+        · exact hG
+        rw [sG, decide_eq_true_eq] at hG
+        kframe sym_exec
+        exact leafL default default hG
+    have hr1 : ¬ decide (x1 - 1 ≤ 2) = true := by rw [c2]; simpa using h2
+    rw [if_neg h2] at sG sT
+    kframe take_neg
+    · exact hr1
+    by_cases h21 : k - 1 ≤ 21
+    · have hr2 : decide (x1 - 1 ≤ 21) = true := by rw [c21]; exact decide_eq_true h21
+      rw [if_pos h21] at sG sT
+      rw [← eR1, ← eR0] at sG sT
+      kframe take_pos
+      · exact hr2
+      kframe sym_exec
+      khead_cases hG
+      · kframe take_pos
+        · exact hG
+        rw [g2_glue, sG, decide_eq_true_eq] at hG
+        kframe sym_exec
+        kframe head_step
+        kframe sym_exec
+        refine leafG _ (hf.w0 - oh) (if decide (hf.w0 - oh > hf.w0) = true then hf.w1 - 1 else hf.w1) hG ?_
+        rw [t2_glue]; exact sT hG
+      · kframe take_neg
+        · exact hG
+        rw [g2_glue, sG, decide_eq_true_eq] at hG
+        kframe sym_exec
+        exact leafL default default hG
+    · have hr2 : ¬ decide (x1 - 1 ≤ 21) = true := by rw [c21]; simpa using h21
+      rw [if_neg h21] at sG sT
+      rw [← eR1, ← eR0] at sG sT
+      kframe take_neg
+      · exact hr2
+      kframe sym_exec
+      khead_cases hG
+      · kframe take_pos
+        · exact hG
+        rw [or1_glue, sG, decide_eq_true_eq] at hG
+        kframe sym_exec
+        refine leafG _ default (hf.w1 - oh) hG ?_
+        rw [t2_glue]; exact sT hG
+      · kframe take_neg
+        · exact hG
+        rw [or1_glue, sG, decide_eq_true_eq] at hG
+        kframe sym_exec
+        exact leafL default default hG
+  by_cases h18 : k - 1 ≤ 18
+  · have hr18 : decide (x1 - 1 ≤ 18) = true := by rw [c18]; exact decide_eq_true h18
+    have hM64' := hM64 h18
+    kframe take_pos
+    · exact hr18
+    kframe sym_exec
+    khead_cases hc
+    · kframe take_pos
+      · exact hc
+      refine key1 _ ?_
+      have hc' : decide (bl + m64 < bl) = true := hc
+      unfold rbC2; rw [if_pos h18, if_pos hc']
+    · kframe take_neg
+      · exact hc
+      refine key1 _ ?_
+      have hc' : ¬ decide (bl + m64 < bl) = true := hc
+      unfold rbC2; rw [if_pos h18, if_neg hc']
+  · have hr18 : ¬ decide (x1 - 1 ≤ 18) = true := by rw [c18]; simpa using h18
+    have hi19 : (x1 - 1 - 19).toInt = ((k - 1 - 19 : Nat) : Int) := by
+      rw [Int32.toInt_sub, hxi, show (19 : Int32).toInt = 19 from by decide, bmod32 _ (by omega) (by omega)]; omega
+    have hM128' := hM128 h18
+    rw [← idx_i32 (x1 - 1 - 19) (k - 1 - 19) hi19] at hM128'
+    kframe take_neg
+    · exact hr18
+    kframe sym_exec
+    khead_cases hc
+    · kframe take_pos
+      · exact hc
+      refine key1 _ ?_
+      have hc' : decide (bl + m128.w0 < bl) = true := hc
+      unfold rbC2; rw [if_neg h18, if_pos hc']
+    · kframe take_neg
+      · exact hc
+      refine key1 _ ?_
+      have hc' : ¬ decide (bl + m128.w0 < bl) = true := hc
+      unfold rbC2; rw [if_neg h18, if_neg hc']
+
+/-- operands in the code's order (`a` has the larger exponent), decoded: `34 − q_b < delta < 34`, and `B ± (C_b rounded)`
+keeps 34 digits whichever way `C_b` is rounded (`B = C_a·10^(34 − q_a)`, `k = delta + q_b − 34` digits rounded away) -/
+theorem add_loop1_core (H : RoundBlockSpec) (x y a b : U128) (m : RoundingMode) (f : UInt32) (hab : Ordered x y a b)
+    {sA sB : Bool} {cA cB : Nat} {eA eB : Int}
+    (ha : decode (bitsOf a) = .fin sA cA eA) (hb : decode (bitsOf b) = .fin sB cB eB) (hcA : cA ≠ 0) (hcB : cB ≠ 0)
+    (hlo : 34 < (ndigits cA : Int) + eA - eB) (hhi : (ndigits cA : Int) + eA - ndigits cB - eB < 34)
+    (hdom : (sA = sB → cA * 10 ^ (34 - ndigits cA) + cB / 10 ^ ((ndigits cA : Int) + eA - eB - 34).toNat + 1 < 10^34) ∧
+      (¬ sA = sB → 10^33 + cB / 10 ^ ((ndigits cA : Int) + eA - eB - 34).toNat + 1 < cA * 10 ^ (34 - ndigits cA))) :
+    bid128_add x y m f =
+      .ok (ofBits (encode (addFin (md m) sA cA eA sB cB eB (if eA ≤ eB then eA else eB)).1),
+           f ||| UInt32.ofNat (addFin (md m) sA cA eA sB cB eB (if eA ≤ eB then eA else eB)).2) := by
+  obtain ⟨ha1, hac, haP, hae, halo, hahi, has, -⟩ := fin_view a ha
+  obtain ⟨hb1, hbc, hbP, hbe, hblo, hbhi, hbs, -⟩ := fin_view b hb
+  have hcA0 : 0 < cA := Nat.pos_of_ne_zero hcA
+  have hcB0 : 0 < cB := Nat.pos_of_ne_zero hcB
+  have ha0 := nonzero_words hac hcA
+  have hb0 := nonzero_words hbc hcB
+  have hQA1 := ndigits_pos hcA0
+  have hQB1 := ndigits_pos hcB0
+  have hQA : ndigits cA ≤ 34 := (ndigits_le_iff hcA0).2 (by simpa [P34] using haP)
+  have hQB : ndigits cB ≤ 34 := (ndigits_le_iff hcB0).2 (by simpa [P34] using hbP)
+  have hbP' : cB < 10^34 := by simpa [P34] using hbP
+  have hle : eB ≤ eA := by omega
+  have hsp : ¬ ((x.w1 &&& c_MASK_SPECIAL == c_MASK_SPECIAL) || (y.w1 &&& c_MASK_SPECIAL == c_MASK_SPECIAL)) = true := by
+    rcases hab with ⟨rfl, rfl, -⟩ | ⟨rfl, rfl, -⟩
+    · exact not_special2 ha1 hb1
+    · exact not_special2 hb1 ha1
+  have hx0 : ¬ (uH x == 0 && uL x == 0) = true := by
+    rcases hab with ⟨rfl, rfl, -⟩ | ⟨rfl, rfl, -⟩
+    · exact ha0
+    · exact hb0
+  have hy0 : ¬ (uH y == 0 && uL y == 0) = true := by
+    rcases hab with ⟨rfl, rfl, -⟩ | ⟨rfl, rfl, -⟩
+    · exact hb0
+    · exact ha0
+  obtain ⟨D, D1, THI, TLO, hTa, hqa⟩ := digits_row (uH a) (uL a) (by rw [hac]; exact hcA0) (hi_lt hac haP)
+  obtain ⟨D', D1', THI', TLO', hTb, hqb⟩ := digits_row (uH b) (uL b) (by rw [hbc]; exact hcB0) (hi_lt hbc hbP)
+  rw [hac] at hqa
+  rw [hbc] at hqb
+  have hlo' := (ndigits_spec hcA0).1
+  have hcAlt := lt_pow_ndigits cA
+  have hcBlt := lt_pow_ndigits cB
+  generalize hQAd : ndigits cA = QA at *
+  generalize hQBd : ndigits cB = QB at *
+  generalize hEAd : (eA + 6176).toNat = EA at *
+  generalize hEBd : (eB + 6176).toNat = EB at *
+  generalize hkd : ((QA : Int) + eA - eB - 34).toNat = k at *
+  have hk1 : 1 ≤ k := by omega
+  have hkQ : k + 1 ≤ QB := by omega
+  have hkE : (QA : Int) + EA - EB - 34 = k := by omega
+  have hEA : EA < 12288 := by omega
+  have hEle : EB ≤ EA := by omega
+  have hgap : (eA - eB).toNat = (34 - QA) + k := by omega
+  have hB1 : 10^33 ≤ cA * 10 ^ (34 - QA) := by
+    calc 10^33 = 10 ^ (QA - 1) * 10 ^ (34 - QA) := by rw [← Nat.pow_add]; congr 1; omega
+      _ ≤ cA * 10 ^ (34 - QA) := Nat.mul_le_mul_right _ hlo'
+  have hB2 : cA * 10 ^ (34 - QA) < 10^34 := by
+    calc cA * 10 ^ (34 - QA) < 10 ^ QA * 10 ^ (34 - QA) := Nat.mul_lt_mul_of_pos_right hcAlt (Nat.pow_pos (by decide))
+      _ = 10^34 := by rw [← Nat.pow_add]; congr 1; omega
+  have hA : cA * 10 ^ (eA - eB).toNat = cA * 10 ^ (34 - QA) * 10 ^ k := by rw [hgap, Nat.pow_add, Nat.mul_assoc]
+  generalize hBd : cA * 10 ^ (34 - QA) = B at *
+  have hgt : cB < cA * 10 ^ (eA - eB).toNat := by
+    rw [hA]
+    have h1 : 10 ^ QB ≤ 10 ^ (33 + k) := Nat.pow_le_pow_right (by decide) (by omega)
+    have h2 : 10^33 * 10^k ≤ B * 10^k := Nat.mul_le_mul_right _ hB1
+    rw [Nat.pow_add] at h1
+    omega
+  have hp : 0 < 10 ^ k := Nat.pow_pos (by decide)
+  have hdm := Nat.div_add_mod cB (10 ^ k)
+  have hrlt := Nat.mod_lt cB hp
+  have hcBe : cB = cB / 10 ^ k * 10 ^ k + cB % 10 ^ k := by rw [Nat.mul_comm]; exact hdm.symm
+  rw [addFin_big (md m) sA cA eA sB cB eB hle hgt, hA]
+  have hdiv : cB / 10 ^ k = cB / 10 ^ k ∧ cB % 10 ^ k = cB % 10 ^ k := ⟨rfl, rfl⟩
+  generalize hav : cB / 10 ^ k = av at hdom hrlt hcBe hdiv ⊢
+  generalize hrv : cB % 10 ^ k = rv at hdom hrlt hcBe hdiv ⊢
+  obtain ⟨T, hT⟩ : ∃ T, T = if rv = 0 then (if sA = sB then B + av else B - av)
+      else (if sA = sB then roundInt (md m) sA (B + av) rv (10 ^ k) else roundInt (md m) sA (B - av - 1) (10 ^ k - rv) (10 ^ k)) :=
+    ⟨_, rfl⟩
+  obtain ⟨pf, hpf⟩ : ∃ pf, pf = if rv = 0 then f else f ||| c_StatusFlags_BID_INEXACT_EXCEPTION := ⟨_, rfl⟩
+  have hT1 : 10^33 ≤ T ∧ T < 10^34 := by
+    rw [hT]
+    by_cases hs : sA = sB
+    · have := hdom.1 hs
+      rw [if_pos hs, if_pos hs]
+      split
+      · omega
+      · rcases ri_cases (md m) sA (B + av) rv (10 ^ k) with h | h <;> rw [h] <;> omega
+    · have := hdom.2 hs
+      rw [if_neg hs, if_neg hs]
+      split
+      · omega
+      · rcases ri_cases (md m) sA (B - av - 1) (10 ^ k - rv) (10 ^ k) with h | h <;> rw [h] <;> omega
+  have hS := loop1_code H x y a b m f hsp hx0 hy0 hab D D1 THI TLO D' D1' THI' TLO' hTa hTb sA sB cA cB QA QB EA EB k B av rv T pf
+    has hbs hac hbc hae hbe hqa hqb hQAd hcA0 hQA1 hQA hQB1 hQB hEA hEle hkE hk1 hkQ hBd hB1 hB2 hbP' ⟨hav, hrv⟩ hrlt hdom hT hpf hT1
+  have hE : ((EB + k : Nat) : Int) - 6176 = eB + (k : Int) := by omega
+  rw [hS, hE, hT, hpf]
+  conv => rhs; rw [hcBe]
+  by_cases hs : sA = sB
+  · rw [if_pos hs, if_pos hs, if_pos hs, finish_add1 (md m) sA k B av rv eB hB1 (hdom.1 hs) hrlt hblo (by omega)]
+    by_cases r0 : rv = 0
+    · rw [if_pos r0, if_pos r0, if_pos r0, or_zero32]
+    · rw [if_neg r0, if_neg r0, if_neg r0]; rfl
+  · rw [if_neg hs, if_neg hs, if_neg hs, finish_sub1 (md m) sA k B av rv eB (hdom.2 hs) hB2 hrlt hblo (by omega)]
+    by_cases r0 : rv = 0
+    · rw [if_pos r0, if_pos r0, if_pos r0, or_zero32]
+    · rw [if_neg r0, if_neg r0, if_neg r0]; rfl
+
+/-! ## 8. The loop, one turn and one rounding, in terms of the decoded operands -/
+
+/-- in terms of the decoded operands: with `H` the operand of the larger exponent (`x` on a tie) and `L` the other one,
+`34 − q_L < delta < 34` (the code enters the rounding loop; `k = delta + q_L − 34` digits of `C_L` are rounded away), and the
+34-digit `B = C_H·10^(34 − q_H)` plus / minus `⌊C_L / 10^k⌋` or `⌊C_L / 10^k⌋ + 1` stays a 34-digit number: one turn of the
+loop, no second rounding -/
+def Loop1Cond (s1 : Bool) (c1 : Nat) (e1 : Int) (s2 : Bool) (c2 : Nat) (e2 : Int) : Prop :=
+  if e2 ≤ e1 then
+    34 < (ndigits c1 : Int) + e1 - e2 ∧ (ndigits c1 : Int) + e1 - ndigits c2 - e2 < 34 ∧
+    (s1 = s2 → c1 * 10 ^ (34 - ndigits c1) + c2 / 10 ^ ((ndigits c1 : Int) + e1 - e2 - 34).toNat + 1 < 10^34) ∧
+    (¬ s1 = s2 → 10^33 + c2 / 10 ^ ((ndigits c1 : Int) + e1 - e2 - 34).toNat + 1 < c1 * 10 ^ (34 - ndigits c1))
+  else
+    34 < (ndigits c2 : Int) + e2 - e1 ∧ (ndigits c2 : Int) + e2 - ndigits c1 - e1 < 34 ∧
+    (s2 = s1 → c2 * 10 ^ (34 - ndigits c2) + c1 / 10 ^ ((ndigits c2 : Int) + e2 - e1 - 34).toNat + 1 < 10^34) ∧
+    (¬ s2 = s1 → 10^33 + c1 / 10 ^ ((ndigits c2 : Int) + e2 - e1 - 34).toNat + 1 < c2 * 10 ^ (34 - ndigits c2))
+
+instance (s1 : Bool) (c1 : Nat) (e1 : Int) (s2 : Bool) (c2 : Nat) (e2 : Int) : Decidable (Loop1Cond s1 c1 e1 s2 c2 e2) := by
+  unfold Loop1Cond; infer_instance
+
+/-- **`bid128_add`, two non-zero numbers, `Loop1Cond`** (the rounding loop, one turn, one rounding): `C_L` is rounded to
+`q_L − k` digits by the reciprocal block (half up, stepping back on a tie when the sum / difference would be odd), added to /
+subtracted from the padded `C_H`, and corrected by one unit as the rounding mode, the sign and the block's indicators
+prescribe; inexact iff digits were lost.  This is `addD`, datum and flags, for all five modes. -/
+theorem add_loop1 (H : RoundBlockSpec) (x y : U128) (m : RoundingMode) (f : UInt32) {s1 s2 : Bool} {c1 c2 : Nat} {e1 e2 : Int}
+    (hx : decode (bitsOf x) = .fin s1 c1 e1) (hy : decode (bitsOf y) = .fin s2 c2 e2) (hc1 : c1 ≠ 0) (hc2 : c2 ≠ 0)
+    (h : Loop1Cond s1 c1 e1 s2 c2 e2) :
+    bid128_add x y m f =
+      .ok (ofBits (encode (addD (md m) (decode (bitsOf x)) (decode (bitsOf y))).1),
+           f ||| UInt32.ofNat (addD (md m) (decode (bitsOf x)) (decode (bitsOf y))).2) := by
+  obtain ⟨-, -, -, hxe, hxlo, hxhi, -, -⟩ := fin_view x hx
+  obtain ⟨-, -, -, hye, hylo, hyhi, -, -⟩ := fin_view y hy
+  rw [hx, hy, addD_fin_fin]
+  unfold Loop1Cond at h
+  by_cases hle : e2 ≤ e1
+  · rw [if_pos hle] at h
+    have hab : Ordered x y x y := Or.inl ⟨rfl, rfl, by
+      rw [decide_eq_true_eq, UInt64.lt_iff_toNat_lt, hxe, hye]; omega⟩
+    exact add_loop1_core H x y x y m f hab hx hy hc1 hc2 h.1 h.2.1 h.2.2
+  · rw [if_neg hle] at h
+    have hab : Ordered x y y x := Or.inr ⟨rfl, rfl, by
+      rw [decide_eq_true_eq, UInt64.lt_iff_toNat_lt, hxe, hye]; omega⟩
+    rw [addFin_comm]
+    exact add_loop1_core H x y y x m f hab hy hx hc2 hc1 h.1 h.2.1 h.2.2
+
+-- 15 + 1.000000000000000000000000000000001 = 16.000000000000000000000000000000001 → 16.00000000000000000000000000000000, inexact
+example (H : RoundBlockSpec) : bid128_add ⟨15, 0x3040000000000000⟩ ⟨0x38c15b0a00000001, 0x2ffe314dc6448d93⟩ .NearestEven 0
+    = .ok (ofBits (encode (.fin false (16 * 10^32) (-32))), 0x20) := by
+  rw [add_loop1 H (s1 := false) (c1 := 15) (e1 := 0) (s2 := false) (c2 := 10^33 + 1) (e2 := -33) _ _ _ _ (by decide +kernel)
+    (by decide +kernel) (by decide) (by decide) (by decide +kernel)]
+  decide +kernel
+-- 15 − 1.000000000000000000000000000000001 = 13.999999999999999999999999999999999 → toward zero 13.99999999999999999999999999999999
+example (H : RoundBlockSpec) : bid128_add ⟨15, 0x3040000000000000⟩ ⟨0x38c15b0a00000001, 0xaffe314dc6448d93⟩ .TowardZero 0
+    = .ok (ofBits (encode (.fin false (14 * 10^32 - 1) (-32))), 0x20) := by
+  rw [add_loop1 H (s1 := false) (c1 := 15) (e1 := 0) (s2 := true) (c2 := 10^33 + 1) (e2 := -33) _ _ _ _ (by decide +kernel)
+    (by decide +kernel) (by decide) (by decide) (by decide +kernel)]
+  decide +kernel
+
+/-! ## 9. `AddRounding`: what is closed (the power-of-ten sub-case of `delta = P34`), what is left (the loop)
+
+State of the loop: `add_loop1` (§7–§8) closes the part "one turn, one rounding" (`Loop1Cond`); the 35-digit sum (second
+rounding by `BID_TEN2MK128[0]` and its repair) and the second turn after a cancellation are open: `LoopRestRounding`. -/
+
+/-- the loop's region, decoded operands: `34 − q_L < delta < 34` -/
+def LoopCond (s1 : Bool) (c1 : Nat) (e1 : Int) (s2 : Bool) (c2 : Nat) (e2 : Int) : Prop :=
+  if e2 ≤ e1 then
+    34 - (ndigits c2 : Int) < (ndigits c1 : Int) + e1 - ndigits c2 - e2 ∧ (ndigits c1 : Int) + e1 - ndigits c2 - e2 < 34
+  else
+    34 - (ndigits c1 : Int) < (ndigits c2 : Int) + e2 - ndigits c1 - e1 ∧ (ndigits c2 : Int) + e2 - ndigits c1 - e1 < 34
+
+/-- two non-zero numbers in the power-of-ten sub-case of `delta = P34` -/
+def PowRegion : Datum → Datum → Prop
+  | .fin s1 c1 e1, .fin s2 c2 e2 => c1 ≠ 0 ∧ c2 ≠ 0 ∧ PowCond s1 c1 e1 s2 c2 e2
+  | _, _ => False
+
+/-- two non-zero numbers for which the code enters the rounding loop -/
+def LoopRegion : Datum → Datum → Prop
+  | .fin s1 c1 e1, .fin s2 c2 e2 => c1 ≠ 0 ∧ c2 ≠ 0 ∧ LoopCond s1 c1 e1 s2 c2 e2
+  | _, _ => False
+
+theorem remaining_cases (dx dy : Datum) (h : Remaining dx dy) : PowRegion dx dy ∨ LoopRegion dx dy := by
+  cases dx with
+  | nan s g p => exact absurd h id
+  | inf s => exact absurd h id
+  | fin s1 c1 e1 =>
+    cases dy with
+    | nan s g p => exact absurd h id
+    | inf s => exact absurd h id
+    | fin s2 c2 e2 =>
+      obtain ⟨h1, h2, h3⟩ := h
+      unfold RemCond at h3
+      by_cases hle : e2 ≤ e1
+      · rw [if_pos hle] at h3
+        rcases h3 with h3 | h3
+        · exact Or.inr ⟨h1, h2, by unfold LoopCond; rw [if_pos hle]; exact h3⟩
+        · exact Or.inl ⟨h1, h2, by unfold PowCond; rw [if_pos hle]; exact h3⟩
+      · rw [if_neg hle] at h3
+        rcases h3 with h3 | h3
+        · exact Or.inr ⟨h1, h2, by unfold LoopCond; rw [if_neg hle]; exact h3⟩
+        · exact Or.inl ⟨h1, h2, by unfold PowCond; rw [if_neg hle]; exact h3⟩
+
+/-- **`bid128_add` on `PowRegion`** (the former defect D1's region) is `addD` -/
+theorem add_pow_region (H : RoundBlockSpec) (x y : U128) (m : RoundingMode) (f : UInt32) (h : PowRegion (dOf x) (dOf y)) :
+    bid128_add x y m f = .ok (ofBits (encode (addD (md m) (dOf x) (dOf y)).1), f ||| UInt32.ofNat (addD (md m) (dOf x) (dOf y)).2) := by
+  unfold dOf at *
+  cases hx : decode (bitsOf x) with
+  | fin s1 c1 e1 =>
+    cases hy : decode (bitsOf y) with
+    | fin s2 c2 e2 =>
+      rw [hx, hy] at h
+      rw [← hx, ← hy]
+      exact add_d34pow H x y m f hx hy h.1 h.2.1 h.2.2
+    | inf s => rw [hx, hy] at h; exact absurd h id
+    | nan s g p => rw [hx, hy] at h; exact absurd h id
+  | inf s => rw [hx] at h; exact absurd h id
+  | nan s g p => rw [hx] at h; exact absurd h id
+
+/-- what is still to be proved: `bid128_add` is `addD` where the code enters the rounding loop -/
+def LoopRounding : Prop :=
+  ∀ (x y : U128) (m : RoundingMode) (f : UInt32), LoopRegion (dOf x) (dOf y) →
+    bid128_add x y m f = .ok (ofBits (encode (addD (md m) (dOf x) (dOf y)).1), f ||| UInt32.ofNat (addD (md m) (dOf x) (dOf y)).2)
+
+/-- the part of the loop's region that is proved (`add_loop1`): one turn, one rounding -/
+def Loop1Region : Datum → Datum → Prop
+  | .fin s1 c1 e1, .fin s2 c2 e2 => c1 ≠ 0 ∧ c2 ≠ 0 ∧ Loop1Cond s1 c1 e1 s2 c2 e2
+  | _, _ => False
+
+/-- **`bid128_add` on `Loop1Region`** is `addD` -/
+theorem add_loop1_region (H : RoundBlockSpec) (x y : U128) (m : RoundingMode) (f : UInt32) (h : Loop1Region (dOf x) (dOf y)) :
+    bid128_add x y m f = .ok (ofBits (encode (addD (md m) (dOf x) (dOf y)).1), f ||| UInt32.ofNat (addD (md m) (dOf x) (dOf y)).2) := by
+  unfold dOf at *
+  cases hx : decode (bitsOf x) with
+  | fin s1 c1 e1 =>
+    cases hy : decode (bitsOf y) with
+    | fin s2 c2 e2 =>
+      rw [hx, hy] at h
+      rw [← hx, ← hy]
+      exact add_loop1 H x y m f hx hy h.1 h.2.1 h.2.2
+    | inf s => rw [hx, hy] at h; exact absurd h id
+    | nan s g p => rw [hx, hy] at h; exact absurd h id
+  | inf s => rw [hx] at h; exact absurd h id
+  | nan s g p => rw [hx] at h; exact absurd h id
+
+/-- **what is still to be proved**: `bid128_add` is `addD` on the rest of the loop's region — the padded first coefficient
+plus the rounded second one may reach 35 digits (second rounding by `BID_TEN2MK128[0]` and the double-rounding repair), or
+minus the rounded second one may fall to `10^33` or below (cancellation: second turn of the loop, `second_pass`) -/
+def LoopRestRounding : Prop :=
+  ∀ (x y : U128) (m : RoundingMode) (f : UInt32), LoopRegion (dOf x) (dOf y) → ¬ Loop1Region (dOf x) (dOf y) →
+    bid128_add x y m f = .ok (ofBits (encode (addD (md m) (dOf x) (dOf y)).1), f ||| UInt32.ofNat (addD (md m) (dOf x) (dOf y)).2)
+
+theorem loop_rounding_partial (H : RoundBlockSpec) (HR : LoopRestRounding) : LoopRounding := by
+  intro x y m f h
+  by_cases h1 : Loop1Region (dOf x) (dOf y)
+  · exact add_loop1_region H x y m f h1
+  · exact HR x y m f h h1
+
+/-- `AddRounding` from the block's specification and the rest of the loop -/
+theorem add_rounding_partial (H : RoundBlockSpec) (HR : LoopRestRounding) : AddRounding := by
+  intro x y m f h
+  rcases remaining_cases _ _ h with h | h
+  · exact add_pow_region H x y m f h
+  · exact loop_rounding_partial H HR x y m f h
+
+/-- **`bid128_add` for all inputs, all modes** — up to `LoopRestRounding` -/
+theorem bid128_add_spec_partial2 (H : RoundBlockSpec) (HR : LoopRestRounding) (x y : U128) (m : RoundingMode) (f : UInt32) :
+    bid128_add x y m f = .ok (binSpec (addD (md m)) x y f) :=
+  bid128_add_spec_partial' (add_rounding_partial H HR) x y m f
+
+/-- **`bid128_sub` for all inputs, all modes** — up to `LoopRestRounding` -/
+theorem bid128_sub_spec_partial2 (H : RoundBlockSpec) (HR : LoopRestRounding) (x y : U128) (m : RoundingMode) (f : UInt32) :
+    bid128_sub x y m f = .ok (binSpec (subD (md m)) x y f) :=
+  bid128_sub_spec_partial' (add_rounding_partial H HR) x y m f
+
+/-- `bid128_add` is `addD` (the public result, NaN operands included) outside the open part of the loop's region -/
+theorem bid128_add_spec_closed (H : RoundBlockSpec) (x y : U128) (m : RoundingMode) (f : UInt32)
+    (h : ¬ (LoopRegion (dOf x) (dOf y) ∧ ¬ Loop1Region (dOf x) (dOf y))) :
+    bid128_add x y m f = .ok (binSpec (addD (md m)) x y f) := by
+  rcases proved_or_remaining (dOf x) (dOf y) with hp | hr
+  · exact bid128_add_spec_partial x y m f hp
+  · have hn : ¬ ((dOf x).isNaN || (dOf y).isNaN) = true := by
+      intro hn
+      cases hx : dOf x <;> cases hy : dOf y <;> rw [hx, hy] at hr hn <;> first | exact absurd hr id | exact absurd hn (by simp [Datum.isNaN])
+    unfold binSpec
+    rw [if_neg hn]
+    rcases remaining_cases _ _ hr with hq | hq
+    · exact add_pow_region H x y m f hq
+    · by_cases h1 : Loop1Region (dOf x) (dOf y)
+      · exact add_loop1_region H x y m f h1
+      · exact absurd ⟨hq, h1⟩ h
+
+instance (s1 : Bool) (c1 : Nat) (e1 : Int) (s2 : Bool) (c2 : Nat) (e2 : Int) : Decidable (LoopCond s1 c1 e1 s2 c2 e2) := by
+  unfold LoopCond; infer_instance
+
+-- 15 + 1.000000000000000000000000000000001 (34 digits) is in the loop's region (delta = 2 + 0 − 34 + 33 = 1)
+example : LoopCond false 15 0 false (10^33 + 1) (-33) := by decide +kernel
 
 end Dec.C01GenAddRound
